@@ -1,6 +1,23 @@
 /- PINNED by bin/pin-expected: the facts of /repo the model was written against. -/
 namespace Expected
 
+def fn_auth_Auth_Init : String := "func(ab *authboss.Authboss) (err error) { a.Authboss = ab if err = a.Authboss.Config.Core.ViewRenderer.Load(PageLogin); err != nil { return err } a.Authboss.Config.Core.Router.Get(\"/login\", a.Authboss.Core.ErrorHandler.Wrap(a.LoginGet)) a.Authboss.Config.Core.Router.Post(\"/login\", a.Authboss.Core.ErrorHandler.Wrap(a.LoginPost)) return nil }"
+def fn_auth_Auth_LoginPost : String := "func(w http.ResponseWriter, r *http.Request) error { validatable, err := a.Authboss.Core.BodyReader.Read(PageLogin, r) if err != nil { return err } creds := authboss.MustHaveUserValues(validatable) pid := creds.GetPID() pidUser, err := a.Authboss.Storage.Server.Load(r.Context(), pid) if err == authboss.ErrUserNotFound { data := authboss.HTMLData{authboss.DataErr: a.Localizef(r.Context(), authboss.TxtInvalidCredentials)} return a.Authboss.Core.Responder.Respond(w, r, http.StatusOK, PageLogin, data) } else if err != nil { return err } authUser := authboss.MustBeAuthable(pidUser) password := authUser.GetPassword() r = r.WithContext(context.WithValue(r.Context(), authboss.CTXKeyUser, pidUser)) var handled bool err = a.Authboss.Core.Hasher.CompareHashAndPassword(password, creds.GetPassword()) if err != nil { handled, err = a.Authboss.Events.FireAfter(authboss.EventAuthFail, w, r) if err != nil { return err } else if handled { return nil } data := authboss.HTMLData{authboss.DataErr: a.Localizef(r.Context(), authboss.TxtInvalidCredentials)} return a.Authboss.Core.Responder.Respond(w, r, http.StatusOK, PageLogin, data) } r = r.WithContext(context.WithValue(r.Context(), authboss.CTXKeyValues, validatable)) handled, err = a.Events.FireBefore(authboss.EventAuth, w, r) if err != nil { return err } else if handled { return nil } handled, err = a.Events.FireBefore(authboss.EventAuthHijack, w, r) if err != nil { return err } else if handled { return nil } authboss.PutSession(w, authboss.SessionKey, pid) authboss.DelSession(w, authboss.SessionHalfAuthKey) handled, err = a.Authboss.Events.FireAfter(authboss.EventAuth, w, r) if err != nil { return err } else if handled { return nil } ro := authboss.RedirectOptions{ Code: http.StatusTemporaryRedirect, RedirectPath: a.Authboss.Paths.AuthLoginOK, FollowRedirParam: true, } return a.Authboss.Core.Redirector.Redirect(w, r, ro) }"
+def eventRegs_auth : List (String × String) := [
+]
+def stateCalls_auth : List (String × String) := [
+  ("auth.Auth.LoginPost", "PutSession(authboss.SessionKey, pid)"),
+  ("auth.Auth.LoginPost", "DelSession(authboss.SessionHalfAuthKey)")
+]
+def logCalls_auth : List (String × String) := [
+  ("auth.Auth.LoginPost", "Infof(\"failed to load user requested by pid: %s\" | pid)"),
+  ("auth.Auth.LoginPost", "Infof(\"user %s failed to log in\" | pid)"),
+  ("auth.Auth.LoginPost", "Infof(\"user %s logged in\" | pid)")
+]
+def routes_auth : List (String × String) := [
+  ("auth.Auth.Init", "Get \"/login\" a.Authboss.Core.ErrorHandler.Wrap(a.LoginGet)"),
+  ("auth.Auth.Init", "Post \"/login\" a.Authboss.Core.ErrorHandler.Wrap(a.LoginPost)")
+]
 def fn_authboss_ClientStateResponseWriter_WriteHeader : String := "func(code int) { if !c.hasWritten { if err := c.putClientState(); err != nil { panic(err) } } c.ResponseWriter.WriteHeader(code) }"
 def fn_authboss_ClientStateResponseWriter_Write : String := "func(b []byte) (int, error) { if !c.hasWritten { if err := c.putClientState(); err != nil { return 0, err } } return c.ResponseWriter.Write(b) }"
 def fn_authboss_ClientStateResponseWriter_putClientState : String := "func() error { if c.hasWritten { panic(\"should not call putClientState twice\") } c.hasWritten = true if len(c.cookieStateEvents) == 0 && len(c.sessionStateEvents) == 0 { return nil } if c.sessionStateRW != nil && len(c.sessionStateEvents) > 0 { err := c.sessionStateRW.WriteState(c, c.sessionState, c.sessionStateEvents) if err != nil { return err } } if c.cookieStateRW != nil && len(c.cookieStateEvents) > 0 { err := c.cookieStateRW.WriteState(c, c.cookieState, c.cookieStateEvents) if err != nil { return err } } return nil }"
@@ -21,5 +38,614 @@ def fn_authboss_GetCookie : String := "func(r *http.Request, key string) (string
 def fn_authboss_DelAllSession : String := "func(w http.ResponseWriter, whitelist []string) { delAllState(w, CTXKeySessionState, whitelist) }"
 def fn_authboss_Authboss_NewResponse : String := "func(w http.ResponseWriter) *ClientStateResponseWriter { return &ClientStateResponseWriter{ ResponseWriter: w, cookieStateRW: a.Config.Storage.CookieState, sessionStateRW: a.Config.Storage.SessionState, } }"
 def fn_authboss_Authboss_LoadClientState : String := "func(w http.ResponseWriter, r *http.Request) (*http.Request, error) { if a.Storage.SessionState != nil { state, err := a.Storage.SessionState.ReadState(r) if err != nil { return nil, err } else if state != nil { c := MustClientStateResponseWriter(w) c.sessionState = state r = r.WithContext(context.WithValue(r.Context(), CTXKeySessionState, state)) } } if a.Storage.CookieState != nil { state, err := a.Storage.CookieState.ReadState(r) if err != nil { return nil, err } else if state != nil { c := MustClientStateResponseWriter(w) c.cookieState = state r = r.WithContext(context.WithValue(r.Context(), CTXKeyCookieState, state)) } } return r, nil }"
+def fn_confirm_Confirm_Init : String := "func(ab *authboss.Authboss) (err error) { c.Authboss = ab if err = c.Authboss.Config.Core.MailRenderer.Load(EmailConfirmHTML, EmailConfirmTxt); err != nil { return err } var callbackMethod func(string, http.Handler) methodConfig := c.Config.Modules.ConfirmMethod if methodConfig == http.MethodGet { methodConfig = c.Config.Modules.MailRouteMethod } switch methodConfig { case http.MethodGet: callbackMethod = c.Authboss.Config.Core.Router.Get case http.MethodPost: callbackMethod = c.Authboss.Config.Core.Router.Post default: panic(\"invalid config for ConfirmMethod/MailRouteMethod\") } callbackMethod(\"/confirm\", c.Authboss.Config.Core.ErrorHandler.Wrap(c.Get)) c.Events.Before(authboss.EventAuth, c.PreventAuth) c.Events.After(authboss.EventRegister, c.StartConfirmationWeb) return nil }"
+def fn_confirm_Confirm_PreventAuth : String := "func(w http.ResponseWriter, r *http.Request, handled bool) (bool, error) { user, err := c.Authboss.CurrentUser(r) if err != nil { return false, err } cuser := authboss.MustBeConfirmable(user) if cuser.GetConfirmed() { return false, nil } ro := authboss.RedirectOptions{ Code: http.StatusTemporaryRedirect, RedirectPath: c.Authboss.Config.Paths.ConfirmNotOK, Failure: c.Localizef(r.Context(), authboss.TxtAccountNotConfirmed), } return true, c.Authboss.Config.Core.Redirector.Redirect(w, r, ro) }"
+def fn_confirm_Confirm_StartConfirmationWeb : String := "func(w http.ResponseWriter, r *http.Request, handled bool) (bool, error) { user, err := c.Authboss.CurrentUser(r) if err != nil { return false, err } cuser := authboss.MustBeConfirmable(user) if err = c.StartConfirmation(r.Context(), cuser, true); err != nil { return false, err } ro := authboss.RedirectOptions{ Code: http.StatusTemporaryRedirect, RedirectPath: c.Authboss.Config.Paths.ConfirmNotOK, Success: c.Localizef(r.Context(), authboss.TxtConfirmYourAccount), } return true, c.Authboss.Config.Core.Redirector.Redirect(w, r, ro) }"
+def fn_confirm_Confirm_StartConfirmation : String := "func(ctx context.Context, user authboss.ConfirmableUser, sendEmail bool) error { selector, verifier, token, err := c.Authboss.Core.OneTimeTokenGenerator.GenerateToken() if err != nil { return err } user.PutConfirmed(false) user.PutConfirmSelector(selector) user.PutConfirmVerifier(verifier) if err := c.Authboss.Config.Storage.Server.Save(ctx, user); err != nil { return errors.Wrap(err, \"failed to save user during StartConfirmation, user data may be in weird state\") } if c.Authboss.Config.Modules.MailNoGoroutine { c.SendConfirmEmail(ctx, user.GetEmail(), token) } else { go c.SendConfirmEmail(ctx, user.GetEmail(), token) } return nil }"
+def fn_confirm_Confirm_SendConfirmEmail : String := "func(ctx context.Context, to, token string) { mailURL := c.mailURL(token) email := authboss.Email{ To: []string{to}, From: c.Config.Mail.From, FromName: c.Config.Mail.FromName, Subject: c.Config.Mail.SubjectPrefix + c.Localizef(ctx, authboss.TxtConfirmEmailSubject), } ro := authboss.EmailResponseOptions{ Data: authboss.NewHTMLData(DataConfirmURL, mailURL), HTMLTemplate: EmailConfirmHTML, TextTemplate: EmailConfirmTxt, } if err := c.Authboss.Email(ctx, email, ro); err != nil { } }"
+def fn_confirm_Confirm_Get : String := "func(w http.ResponseWriter, r *http.Request) error { validator, err := c.Authboss.Config.Core.BodyReader.Read(PageConfirm, r) if err != nil { return err } if errs := validator.Validate(); errs != nil { return c.invalidToken(w, r) } values := authboss.MustHaveConfirmValues(validator) rawToken, err := base64.URLEncoding.DecodeString(values.GetToken()) if err != nil { return c.invalidToken(w, r) } credsGenerator := c.Authboss.Core.OneTimeTokenGenerator if len(rawToken) != credsGenerator.TokenSize() { return c.invalidToken(w, r) } selectorBytes, verifierBytes := credsGenerator.ParseToken(string(rawToken)) selector := base64.StdEncoding.EncodeToString(selectorBytes[:]) storer := authboss.EnsureCanConfirm(c.Authboss.Config.Storage.Server) user, err := storer.LoadByConfirmSelector(r.Context(), selector) if err == authboss.ErrUserNotFound { return c.invalidToken(w, r) } else if err != nil { return err } dbVerifierBytes, err := base64.StdEncoding.DecodeString(user.GetConfirmVerifier()) if err != nil { return c.invalidToken(w, r) } if subtle.ConstantTimeEq(int32(len(verifierBytes)), int32(len(dbVerifierBytes))) != 1 || subtle.ConstantTimeCompare(verifierBytes[:], dbVerifierBytes) != 1 { return c.invalidToken(w, r) } user.PutConfirmSelector(\"\") user.PutConfirmVerifier(\"\") user.PutConfirmed(true) if err = c.Authboss.Config.Storage.Server.Save(r.Context(), user); err != nil { return err } ro := authboss.RedirectOptions{ Code: http.StatusTemporaryRedirect, Success: c.Localizef(r.Context(), authboss.TxtConfrimationSuccess), RedirectPath: c.Authboss.Config.Paths.ConfirmOK, } return c.Authboss.Config.Core.Redirector.Redirect(w, r, ro) }"
+def fn_confirm_Confirm_invalidToken : String := "func(w http.ResponseWriter, r *http.Request) error { ro := authboss.RedirectOptions{ Code: http.StatusTemporaryRedirect, Failure: c.Localizef(r.Context(), authboss.TxtInvalidConfirmToken), RedirectPath: c.Authboss.Config.Paths.ConfirmNotOK, } return c.Authboss.Config.Core.Redirector.Redirect(w, r, ro) }"
+def fn_confirm_Middleware : String := "func(ab *authboss.Authboss) func(http.Handler) http.Handler { return func(next http.Handler) http.Handler { return http.HandlerFunc(func(w http.ResponseWriter, r *http.Request) { user := ab.LoadCurrentUserP(&r) cu := authboss.MustBeConfirmable(user) if cu.GetConfirmed() { next.ServeHTTP(w, r) return } ro := authboss.RedirectOptions{ Code: http.StatusTemporaryRedirect, Failure: ab.Localizef(r.Context(), authboss.TxtAccountNotConfirmed), RedirectPath: ab.Config.Paths.ConfirmNotOK, } if err := ab.Config.Core.Redirector.Redirect(w, r, ro); err != nil { } }) } }"
+def eventRegs_confirm : List (String × String) := [
+  ("confirm.Confirm.Init", "Before authboss.EventAuth c.PreventAuth"),
+  ("confirm.Confirm.Init", "After authboss.EventRegister c.StartConfirmationWeb")
+]
+def stateCalls_confirm : List (String × String) := [
+]
+def logCalls_confirm : List (String × String) := [
+  ("confirm.Confirm.PreventAuth", "Infof(\"user %s is confirmed, allowing auth\" | user.GetPID())"),
+  ("confirm.Confirm.PreventAuth", "Infof(\"user %s was not confirmed, preventing auth\" | user.GetPID())"),
+  ("confirm.Confirm.StartConfirmation", "Infof(\"generated new confirm token for user: %s\" | user.GetPID())"),
+  ("confirm.Confirm.SendConfirmEmail", "Infof(\"sending confirm e-mail to: %s\" | to)"),
+  ("confirm.Confirm.SendConfirmEmail", "Errorf(\"failed to send confirm e-mail to %s: %+v\" | to | err)"),
+  ("confirm.Confirm.Get", "Infof(\"validation failed in Confirm.Get, this typically means a bad token: %+v\" | errs)"),
+  ("confirm.Confirm.Get", "Infof(\"error decoding token in Confirm.Get, this typically means a bad token: %+v\" | err)"),
+  ("confirm.Confirm.Get", "Infof(\"invalid confirm token submitted, size was wrong: %d\" | len(rawToken))"),
+  ("confirm.Confirm.Get", "Infof(\"confirm selector was not found in database: %s\" | selector)"),
+  ("confirm.Confirm.Get", "Infof(\"invalid confirm verifier stored in database: %s\" | user.GetConfirmVerifier())"),
+  ("confirm.Confirm.Get", "Info(\"stored confirm verifier does not match provided one\")"),
+  ("confirm.Confirm.Get", "Infof(\"user %s confirmed their account\" | user.GetPID())"),
+  ("confirm.Middleware", "Infof(\"user %s prevented from accessing %s: not confirmed\" | user.GetPID() | r.URL.Path)"),
+  ("confirm.Middleware", "Errorf(\"error redirecting in confirm.Middleware: #%v\" | err)")
+]
+def routes_confirm : List (String × String) := [
+  ("confirm.Confirm.Init", "callbackMethod \"/confirm\" c.Authboss.Config.Core.ErrorHandler.Wrap(c.Get)")
+]
+def fn_authboss_Authboss_CurrentUserID : String := "func(r *http.Request) (string, error) { if pid := r.Context().Value(CTXKeyPID); pid != nil { return pid.(string), nil } pid, _ := GetSession(r, SessionKey) return pid, nil }"
+def fn_authboss_Authboss_CurrentUser : String := "func(r *http.Request) (User, error) { if user := r.Context().Value(CTXKeyUser); user != nil { return user.(User), nil } pid, err := a.CurrentUserID(r) if err != nil { return nil, err } else if len(pid) == 0 { return nil, ErrUserNotFound } return a.currentUser(r.Context(), pid) }"
+def fn_authboss_Authboss_currentUser : String := "func(ctx context.Context, pid string) (User, error) { return a.Storage.Server.Load(ctx, pid) }"
+def fn_authboss_Authboss_LoadCurrentUserID : String := "func(r **http.Request) (string, error) { pid, err := a.CurrentUserID(*r) if err != nil { return \"\", err } if len(pid) == 0 { return \"\", nil } ctx := context.WithValue((**r).Context(), CTXKeyPID, pid) *r = (**r).WithContext(ctx) return pid, nil }"
+def fn_authboss_Authboss_LoadCurrentUser : String := "func(r **http.Request) (User, error) { if user := (*r).Context().Value(CTXKeyUser); user != nil { return user.(User), nil } pid, err := a.LoadCurrentUserID(r) if err != nil { return nil, err } else if len(pid) == 0 { return nil, ErrUserNotFound } ctx := (**r).Context() user, err := a.currentUser(ctx, pid) if err != nil { return nil, err } ctx = context.WithValue(ctx, CTXKeyUser, user) *r = (**r).WithContext(ctx) return user, nil }"
+def fn_authboss_Authboss_LoadCurrentUserP : String := "func(r **http.Request) User { user, err := a.LoadCurrentUser(r) if err != nil { panic(err) } else if user == nil { panic(ErrUserNotFound) } return user }"
+def fn_authboss_Authboss_CurrentUserP : String := "func(r *http.Request) User { i, err := a.CurrentUser(r) if err != nil { panic(err) } else if i == nil { panic(ErrUserNotFound) } return i }"
+def fn_authboss_IsFullyAuthed : String := "func(r *http.Request) bool { _, hasHalfAuth := GetSession(r, SessionHalfAuthKey) return !hasHalfAuth }"
+def fn_authboss_IsTwoFactored : String := "func(r *http.Request) bool { _, has2fa := GetSession(r, Session2FA) return has2fa }"
+def fn_authboss_DelKnownSession : String := "func(w http.ResponseWriter) { DelSession(w, SessionKey) DelSession(w, SessionHalfAuthKey) DelSession(w, SessionLastAction) }"
+def fn_authboss_DelKnownCookie : String := "func(w http.ResponseWriter) { DelCookie(w, CookieRemember) }"
+def fn_authboss_Authboss_UpdatePassword : String := "func(ctx context.Context, user AuthableUser, newPassword string) error { pass, err := a.Config.Core.Hasher.GenerateHash(newPassword) if err != nil { return err } user.PutPassword(pass) storer := a.Config.Storage.Server if err := storer.Save(ctx, user); err != nil { return err } rmStorer, ok := storer.(RememberingServerStorer) if !ok { return nil } return rmStorer.DelRememberTokens(ctx, user.GetPID()) }"
+def fn_authboss_Authboss_VerifyPassword : String := "func(user AuthableUser, password string) error { return a.Core.Hasher.CompareHashAndPassword(user.GetPassword(), password) }"
+def fn_authboss_bcryptHasher_CompareHashAndPassword : String := "func(hashedPassword, password string) error { return bcrypt.CompareHashAndPassword([]byte(hashedPassword), []byte(password)) }"
+def fn_authboss_bcryptHasher_GenerateHash : String := "func(password string) (string, error) { hash, err := bcrypt.GenerateFromPassword([]byte(password), h.cost) if err != nil { return \"\", err } return string(hash), nil }"
+def fn_authboss_Sha512TokenGenerator_GenerateToken : String := "func() (selector, verifier, token string, err error) { rawToken := make([]byte, tokenSize) if _, err = io.ReadFull(rand.Reader, rawToken); err != nil { return \"\", \"\", \"\", err } selectorBytes := sha512.Sum512(rawToken[:tokenSplit]) verifierBytes := sha512.Sum512(rawToken[tokenSplit:]) return base64.StdEncoding.EncodeToString(selectorBytes[:]), base64.StdEncoding.EncodeToString(verifierBytes[:]), base64.URLEncoding.EncodeToString(rawToken), nil }"
+def fn_authboss_Sha512TokenGenerator_ParseToken : String := "func(rawToken string) (selectorBytes, verifierBytes []byte) { selectorBytes64 := sha512.Sum512([]byte(rawToken)[:tokenSplit]) selectorBytes = selectorBytes64[:] verifierBytes64 := sha512.Sum512([]byte(rawToken)[tokenSplit:]) verifierBytes = verifierBytes64[:] return }"
+def fn_authboss_Sha512TokenGenerator_TokenSize : String := "func() int { return tokenSize }"
+def fn_authboss_MakeOAuth2PID : String := "func(provider, uid string) string { return fmt.Sprintf(\"oauth2;;%s;;%s\", provider, uid) }"
+def fn_authboss_ParseOAuth2PID : String := "func(pid string) (provider, uid string, err error) { splits := strings.Split(pid, \";;\") if len(splits) != 3 { return \"\", \"\", errors.Errorf(\"failed to parse oauth2 pid, too many segments: %s\", pid) } if splits[0] != \"oauth2\" { return \"\", \"\", errors.Errorf(\"invalid oauth2 pid, did not start with oauth2: %s\", pid) } return splits[1], splits[2], nil }"
+def fn_authboss_Authboss_Email : String := "func(ctx context.Context, email Email, ro EmailResponseOptions) error { ctxData := ctx.Value(CTXKeyData) if ctxData != nil { if ro.Data == nil { ro.Data = HTMLData{} } ro.Data.Merge(ctxData.(HTMLData)) } if len(ro.HTMLTemplate) != 0 { htmlBody, _, err := a.Core.MailRenderer.Render(ctx, ro.HTMLTemplate, ro.Data) if err != nil { return errors.Wrap(err, \"failed to render e-mail html body\") } email.HTMLBody = string(htmlBody) } if len(ro.TextTemplate) != 0 { textBody, _, err := a.Core.MailRenderer.Render(ctx, ro.TextTemplate, ro.Data) if err != nil { return errors.Wrap(err, \"failed to render e-mail text body\") } email.TextBody = string(textBody) } return a.Core.Mailer.Send(ctx, email) }"
+def consts_authboss : List (String × String) := [
+  ("authboss.RequireNone", "0x00"),
+  ("authboss.RequireFullAuth", "0x01"),
+  ("authboss.Require2FA", "0x02"),
+  ("authboss.RespondNotFound", "iota"),
+  ("authboss.RespondRedirect", "<iota-or-implicit>"),
+  ("authboss.RespondUnauthorized", "<iota-or-implicit>"),
+  ("authboss.SessionKey", "\"uid\""),
+  ("authboss.SessionHalfAuthKey", "\"halfauth\""),
+  ("authboss.SessionLastAction", "\"last_action\""),
+  ("authboss.Session2FA", "\"twofactor\""),
+  ("authboss.Session2FAAuthToken", "\"twofactor_auth_token\""),
+  ("authboss.Session2FAAuthed", "\"twofactor_authed\""),
+  ("authboss.SessionOAuth2State", "\"oauth2_state\""),
+  ("authboss.SessionOAuth2Params", "\"oauth2_params\""),
+  ("authboss.CookieRemember", "\"rm\""),
+  ("authboss.FlashSuccessKey", "\"flash_success\""),
+  ("authboss.FlashErrorKey", "\"flash_error\""),
+  ("authboss.ClientStateEventPut", "iota"),
+  ("authboss.ClientStateEventDel", "<iota-or-implicit>"),
+  ("authboss.ClientStateEventDelAll", "<iota-or-implicit>"),
+  ("authboss.CTXKeyPID", "\"pid\""),
+  ("authboss.CTXKeyUser", "\"user\""),
+  ("authboss.CTXKeySessionState", "\"session\""),
+  ("authboss.CTXKeyCookieState", "\"cookie\""),
+  ("authboss.CTXKeyData", "\"data\""),
+  ("authboss.CTXKeyValues", "\"values\""),
+  ("authboss.EventRegister", "iota"),
+  ("authboss.EventAuth", "<iota-or-implicit>"),
+  ("authboss.EventAuthHijack", "<iota-or-implicit>"),
+  ("authboss.EventOAuth2", "<iota-or-implicit>"),
+  ("authboss.EventAuthFail", "<iota-or-implicit>"),
+  ("authboss.EventOAuth2Fail", "<iota-or-implicit>"),
+  ("authboss.EventRecoverStart", "<iota-or-implicit>"),
+  ("authboss.EventRecoverEnd", "<iota-or-implicit>"),
+  ("authboss.EventGetUser", "<iota-or-implicit>"),
+  ("authboss.EventGetUserSession", "<iota-or-implicit>"),
+  ("authboss.EventPasswordReset", "<iota-or-implicit>"),
+  ("authboss.EventLogout", "<iota-or-implicit>"),
+  ("authboss.EventTwoFactorAdded", "<iota-or-implicit>"),
+  ("authboss.EventTwoFactorRemoved", "<iota-or-implicit>"),
+  ("authboss.DataErr", "\"error\""),
+  ("authboss.DataValidation", "\"errors\""),
+  ("authboss.DataPreserve", "\"preserve\""),
+  ("authboss.DataModules", "\"modules\""),
+  ("authboss.tokenSize", "64"),
+  ("authboss.tokenSplit", "tokenSize / 2"),
+  ("authboss.FormValueRedirect", "\"redir\""),
+  ("authboss._Event_name", "\"EventRegisterEventAuthEventAuthHijackEventOAuth2EventAuthFailEventOAuth2FailEventRecoverStartEventRecoverEndEventGetUserEventGetUserSessionEventPasswordResetEventLogoutEventTwoFactorAddedEventTwoFactorRemoved\""),
+  ("authboss.ConfirmPrefix", "\"confirm_\"")
+]
+def stateCalls_authboss : List (String × String) := [
+  ("authboss.DelKnownSession", "DelSession(SessionKey)"),
+  ("authboss.DelKnownSession", "DelSession(SessionHalfAuthKey)"),
+  ("authboss.DelKnownSession", "DelSession(SessionLastAction)"),
+  ("authboss.DelKnownCookie", "DelCookie(CookieRemember)"),
+  ("authboss.FlashSuccess", "DelSession(FlashSuccessKey)"),
+  ("authboss.FlashError", "DelSession(FlashErrorKey)")
+]
+def fn_authboss_Events_Before : String := "func(e Event, f EventHandler) { events := c.before[e] events = append(events, f) c.before[e] = events }"
+def fn_authboss_Events_After : String := "func(e Event, f EventHandler) { events := c.after[e] events = append(events, f) c.after[e] = events }"
+def fn_authboss_Events_FireBefore : String := "func(e Event, w http.ResponseWriter, r *http.Request) (bool, error) { return c.call(c.before[e], w, r) }"
+def fn_authboss_Events_FireAfter : String := "func(e Event, w http.ResponseWriter, r *http.Request) (bool, error) { return c.call(c.after[e], w, r) }"
+def fn_authboss_Events_call : String := "func(evs []EventHandler, w http.ResponseWriter, r *http.Request) (bool, error) { handled := false for _, fn := range evs { interrupt, err := fn(w, r, handled) if err != nil { return false, err } if interrupt { handled = true } } return handled, nil }"
+def fn_authboss_NewEvents : String := "func() *Events { return &Events{ before: make(map[Event][]EventHandler), after: make(map[Event][]EventHandler), } }"
+def fn_expire_Setup : String := "func(ab *authboss.Authboss) error { ab.Events.After(authboss.EventAuth, func(w http.ResponseWriter, r *http.Request, handled bool) (bool, error) { refreshExpiry(w) return false, nil }) return nil }"
+def fn_expire_timeToExpiry : String := "func(r *http.Request, expireAfter time.Duration) time.Duration { dateStr, ok := authboss.GetSession(r, authboss.SessionLastAction) if !ok { return expireAfter } date, err := time.Parse(time.RFC3339, dateStr) if err != nil { panic(\"last_action is not a valid RFC3339 date\") } remaining := date.Add(expireAfter).Sub(nowTime().UTC()) if remaining > 0 { return remaining } return 0 }"
+def fn_expire_refreshExpiry : String := "func(w http.ResponseWriter) { authboss.PutSession(w, authboss.SessionLastAction, nowTime().UTC().Format(time.RFC3339)) }"
+def fn_expire_Middleware : String := "func(ab *authboss.Authboss) func(http.Handler) http.Handler { return func(next http.Handler) http.Handler { return expireMiddleware{ expireAfter: ab.Config.Modules.ExpireAfter, next: next, sessionWhitelist: ab.Config.Storage.SessionStateWhitelistKeys, } } }"
+def fn_expire_expireMiddleware_ServeHTTP : String := "func(w http.ResponseWriter, r *http.Request) { if _, ok := authboss.GetSession(r, authboss.SessionKey); ok { ttl := timeToExpiry(r, m.expireAfter) if ttl == 0 { authboss.DelAllSession(w, m.sessionWhitelist) authboss.DelSession(w, authboss.SessionKey) authboss.DelSession(w, authboss.SessionLastAction) ctx := context.WithValue(r.Context(), authboss.CTXKeyPID, nil) ctx = context.WithValue(ctx, authboss.CTXKeyUser, nil) ctxState := r.Context().Value(authboss.CTXKeySessionState) if ctxState != nil { state := ctxState.(authboss.ClientState) whitelist := make(map[string]struct{}) for _, w := range m.sessionWhitelist { whitelist[w] = struct{}{} } newState := stateHider{cs: state, whitelist: whitelist} ctx = context.WithValue(ctx, authboss.CTXKeySessionState, newState) } r = r.WithContext(ctx) } else { refreshExpiry(w) } } m.next.ServeHTTP(w, r) }"
+def fn_expire_stateHider_Get : String := "func(s string) (string, bool) { _, ok := k.whitelist[s] if !ok { return \"\", false } return k.cs.Get(s) }"
+def eventRegs_expire : List (String × String) := [
+  ("expire.Setup", "After authboss.EventAuth func(w http.ResponseWriter, r *http.Request, handled bool) (bool, error) { refreshExpiry(w) return false, nil }")
+]
+def stateCalls_expire : List (String × String) := [
+  ("expire.refreshExpiry", "PutSession(authboss.SessionLastAction, nowTime().UTC().Format(time.RFC3339))"),
+  ("expire.expireMiddleware.ServeHTTP", "DelAllSession(m.sessionWhitelist)"),
+  ("expire.expireMiddleware.ServeHTTP", "DelSession(authboss.SessionKey)"),
+  ("expire.expireMiddleware.ServeHTTP", "DelSession(authboss.SessionLastAction)")
+]
+def pkgVars_expire : List (String × String) := [
+  ("expire.nowTime", "time.Now")
+]
+def fn_lock_Lock_Init : String := "func(ab *authboss.Authboss) error { l.Authboss = ab l.Events.Before(authboss.EventAuth, l.BeforeAuth) l.Events.Before(authboss.EventOAuth2, l.BeforeAuth) l.Events.After(authboss.EventAuth, l.AfterAuthSuccess) l.Events.After(authboss.EventAuthFail, l.AfterAuthFail) return nil }"
+def fn_lock_Lock_BeforeAuth : String := "func(w http.ResponseWriter, r *http.Request, handled bool) (bool, error) { return l.updateLockedState(w, r, true) }"
+def fn_lock_Lock_AfterAuthSuccess : String := "func(w http.ResponseWriter, r *http.Request, handled bool) (bool, error) { user, err := l.Authboss.CurrentUser(r) if err != nil { return false, err } lu := authboss.MustBeLockable(user) lu.PutAttemptCount(0) lu.PutLastAttempt(time.Now().UTC()) return false, l.Authboss.Config.Storage.Server.Save(r.Context(), lu) }"
+def fn_lock_Lock_AfterAuthFail : String := "func(w http.ResponseWriter, r *http.Request, handled bool) (bool, error) { return l.updateLockedState(w, r, false) }"
+def fn_lock_Lock_updateLockedState : String := "func(w http.ResponseWriter, r *http.Request, wasCorrectPassword bool) (bool, error) { user, err := l.Authboss.CurrentUser(r) if err != nil { return false, err } lu := authboss.MustBeLockable(user) last := lu.GetLastAttempt() attempts := lu.GetAttemptCount() attempts++ if !wasCorrectPassword { if time.Now().UTC().Sub(last) > l.Modules.LockWindow { attempts = 1 } if attempts >= l.Modules.LockAfter { lu.PutLocked(time.Now().UTC().Add(l.Modules.LockDuration)) } lu.PutAttemptCount(attempts) } lu.PutLastAttempt(time.Now().UTC()) if err := l.Authboss.Config.Storage.Server.Save(r.Context(), lu); err != nil { return false, err } if !IsLocked(lu) { return false, nil } ro := authboss.RedirectOptions{ Code: http.StatusTemporaryRedirect, Failure: l.Localizef(r.Context(), authboss.TxtLocked), RedirectPath: l.Authboss.Config.Paths.LockNotOK, } return true, l.Authboss.Config.Core.Redirector.Redirect(w, r, ro) }"
+def fn_lock_Lock_Lock : String := "func(ctx context.Context, key string) error { user, err := l.Authboss.Config.Storage.Server.Load(ctx, key) if err != nil { return err } lu := authboss.MustBeLockable(user) lu.PutLocked(time.Now().UTC().Add(l.Authboss.Config.Modules.LockDuration)) return l.Authboss.Config.Storage.Server.Save(ctx, lu) }"
+def fn_lock_Lock_Unlock : String := "func(ctx context.Context, key string) error { user, err := l.Authboss.Config.Storage.Server.Load(ctx, key) if err != nil { return err } lu := authboss.MustBeLockable(user) now := time.Now().UTC() lu.PutAttemptCount(0) lu.PutLastAttempt(now.Add(-l.Authboss.Config.Modules.LockWindow * 2)) lu.PutLocked(now.Add(-l.Authboss.Config.Modules.LockDuration)) return l.Authboss.Config.Storage.Server.Save(ctx, lu) }"
+def fn_lock_Middleware : String := "func(ab *authboss.Authboss) func(http.Handler) http.Handler { return func(next http.Handler) http.Handler { return http.HandlerFunc(func(w http.ResponseWriter, r *http.Request) { user := ab.LoadCurrentUserP(&r) lu := authboss.MustBeLockable(user) if !IsLocked(lu) { next.ServeHTTP(w, r) return } ro := authboss.RedirectOptions{ Code: http.StatusTemporaryRedirect, Failure: ab.Localizef(r.Context(), authboss.TxtLocked), RedirectPath: ab.Config.Paths.LockNotOK, } if err := ab.Config.Core.Redirector.Redirect(w, r, ro); err != nil { } }) } }"
+def fn_lock_IsLocked : String := "func(lu authboss.LockableUser) bool { return lu.GetLocked().After(time.Now().UTC()) }"
+def eventRegs_lock : List (String × String) := [
+  ("lock.Lock.Init", "Before authboss.EventAuth l.BeforeAuth"),
+  ("lock.Lock.Init", "Before authboss.EventOAuth2 l.BeforeAuth"),
+  ("lock.Lock.Init", "After authboss.EventAuth l.AfterAuthSuccess"),
+  ("lock.Lock.Init", "After authboss.EventAuthFail l.AfterAuthFail")
+]
+def stateCalls_lock : List (String × String) := [
+]
+def logCalls_lock : List (String × String) := [
+  ("lock.Middleware", "Infof(\"user %s prevented from accessing %s: locked\" | user.GetPID() | r.URL.Path)"),
+  ("lock.Middleware", "Errorf(\"error redirecting in lock.Middleware: #%v\" | err)")
+]
+def fn_logout_Logout_Init : String := "func(ab *authboss.Authboss) error { l.Authboss = ab var logoutRouteMethod func(string, http.Handler) switch l.Config.Modules.LogoutMethod { case \"GET\": logoutRouteMethod = l.Config.Core.Router.Get case \"POST\": logoutRouteMethod = l.Config.Core.Router.Post case \"DELETE\": logoutRouteMethod = l.Config.Core.Router.Delete default: return errors.Errorf(\"logout wants to register a logout route but was given an invalid method: %s\", l.Config.Modules.LogoutMethod) } logoutRouteMethod(\"/logout\", l.Core.ErrorHandler.Wrap(l.Logout)) return nil }"
+def fn_logout_Logout_Logout : String := "func(w http.ResponseWriter, r *http.Request) error { user, err := l.CurrentUser(r) if err == nil && user != nil { } else { } var handled bool handled, err = l.Events.FireBefore(authboss.EventLogout, w, r) if err != nil { return err } else if handled { return nil } authboss.DelAllSession(w, l.Config.Storage.SessionStateWhitelistKeys) authboss.DelKnownSession(w) authboss.DelKnownCookie(w) handled, err = l.Events.FireAfter(authboss.EventLogout, w, r) if err != nil { return err } else if handled { return nil } ro := authboss.RedirectOptions{ Code: http.StatusTemporaryRedirect, RedirectPath: l.Paths.LogoutOK, Success: l.Localizef(r.Context(), authboss.TxtLoggedOut), } return l.Core.Redirector.Redirect(w, r, ro) }"
+def eventRegs_logout : List (String × String) := [
+]
+def stateCalls_logout : List (String × String) := [
+  ("logout.Logout.Logout", "DelAllSession(l.Config.Storage.SessionStateWhitelistKeys)"),
+  ("logout.Logout.Logout", "DelKnownSession()"),
+  ("logout.Logout.Logout", "DelKnownCookie()")
+]
+def logCalls_logout : List (String × String) := [
+  ("logout.Logout.Logout", "Infof(\"user %s logged out\" | user.GetPID())"),
+  ("logout.Logout.Logout", "Info(\"user (unknown) logged out\")")
+]
+def routes_logout : List (String × String) := [
+  ("logout.Logout.Init", "logoutRouteMethod \"/logout\" l.Core.ErrorHandler.Wrap(l.Logout)")
+]
+def fn_authboss_MountedMiddleware2 : String := "func(ab *Authboss, mountPathed bool, reqs MWRequirements, failResponse MWRespondOnFailure) func(http.Handler) http.Handler { return func(next http.Handler) http.Handler { return http.HandlerFunc(func(w http.ResponseWriter, r *http.Request) { fail := func(w http.ResponseWriter, r *http.Request) { switch failResponse { case RespondNotFound: w.WriteHeader(http.StatusNotFound) case RespondUnauthorized: w.WriteHeader(http.StatusUnauthorized) case RespondRedirect: vals := make(url.Values) redirURL := r.URL.Path if mountPathed && len(ab.Config.Paths.Mount) != 0 { redirURL = path.Join(ab.Config.Paths.Mount, redirURL) } if len(r.URL.RawQuery) != 0 { redirURL += \"?\" + r.URL.RawQuery } vals.Set(FormValueRedirect, redirURL) ro := RedirectOptions{ Code: http.StatusTemporaryRedirect, Failure: ab.Localizef(r.Context(), TxtAuthFailed), RedirectPath: path.Join(ab.Config.Paths.Mount, fmt.Sprintf(\"/login?%s\", vals.Encode())), } if err := ab.Config.Core.Redirector.Redirect(w, r, ro); err != nil { } return } } if hasBit(reqs, RequireFullAuth) && !IsFullyAuthed(r) || hasBit(reqs, Require2FA) && !IsTwoFactored(r) { fail(w, r) return } if _, err := ab.LoadCurrentUser(&r); err == ErrUserNotFound { fail(w, r) return } else if err != nil { w.WriteHeader(http.StatusInternalServerError) return } else { next.ServeHTTP(w, r) } }) } }"
+def fn_authboss_Middleware2 : String := "func(ab *Authboss, requirements MWRequirements, failureResponse MWRespondOnFailure) func(http.Handler) http.Handler { return MountedMiddleware2(ab, false, requirements, failureResponse) }"
+def fn_authboss_MountedMiddleware : String := "func(ab *Authboss, mountPathed, redirectToLogin, forceFullAuth, force2fa bool) func(http.Handler) http.Handler { var reqs MWRequirements failResponse := RespondNotFound if forceFullAuth { reqs |= RequireFullAuth } if force2fa { reqs |= Require2FA } if redirectToLogin { failResponse = RespondRedirect } return MountedMiddleware2(ab, mountPathed, reqs, failResponse) }"
+def fn_authboss_Middleware : String := "func(ab *Authboss, redirectToLogin bool, forceFullAuth bool, force2fa bool) func(http.Handler) http.Handler { return MountedMiddleware(ab, false, redirectToLogin, forceFullAuth, force2fa) }"
+def fn_authboss_hasBit : String := "func(reqs, req MWRequirements) bool { return reqs&req == req }"
+def fn_oauth2_OAuth2_Init : String := "func(ab *authboss.Authboss) error { o.Authboss = ab // Do annoying sorting on keys so we can have predictable // route registration (both for consistency inside the router but // also for tests -_-) var keys []string for k := range o.Authboss.Config.Modules.OAuth2Providers { keys = append(keys, k) } sort.Strings(keys) for _, provider := range keys { cfg := o.Authboss.Config.Modules.OAuth2Providers[provider] provider = strings.ToLower(provider) init := fmt.Sprintf(\"/oauth2/%s\", provider) callback := fmt.Sprintf(\"/oauth2/callback/%s\", provider) o.Authboss.Config.Core.Router.Get(init, o.Authboss.Core.ErrorHandler.Wrap(o.Start)) o.Authboss.Config.Core.Router.Get(callback, o.Authboss.Core.ErrorHandler.Wrap(o.End)) if mount := o.Authboss.Config.Paths.Mount; len(mount) > 0 { callback = path.Join(mount, callback) } cfg.OAuth2Config.RedirectURL = o.Authboss.Config.Paths.RootURL + callback } return nil }"
+def fn_oauth2_OAuth2_Start : String := "func(w http.ResponseWriter, r *http.Request) error { provider := strings.ToLower(filepath.Base(r.URL.Path)) cfg, ok := o.Authboss.Config.Modules.OAuth2Providers[provider] if !ok { return errors.Errorf(\"oauth2 provider %q not found\", provider) } nonce := make([]byte, 32) if _, err := io.ReadFull(rand.Reader, nonce); err != nil { return errors.Wrap(err, \"failed to create nonce\") } state := base64.URLEncoding.EncodeToString(nonce) authboss.PutSession(w, authboss.SessionOAuth2State, state) passAlongs := make(map[string]string) for k, vals := range r.URL.Query() { for _, val := range vals { passAlongs[k] = val } } if len(passAlongs) > 0 { byt, err := json.Marshal(passAlongs) if err != nil { return err } authboss.PutSession(w, authboss.SessionOAuth2Params, string(byt)) } else { authboss.DelSession(w, authboss.SessionOAuth2Params) } authCodeUrl := cfg.OAuth2Config.AuthCodeURL(state) extraParams := cfg.AdditionalParams.Encode() if len(extraParams) > 0 { authCodeUrl = fmt.Sprintf(\"%s&%s\", authCodeUrl, extraParams) } ro := authboss.RedirectOptions{ Code: http.StatusTemporaryRedirect, RedirectPath: authCodeUrl, } return o.Authboss.Core.Redirector.Redirect(w, r, ro) }"
+def fn_oauth2_OAuth2_End : String := "func(w http.ResponseWriter, r *http.Request) error { provider := strings.ToLower(filepath.Base(r.URL.Path)) cfg, ok := o.Authboss.Config.Modules.OAuth2Providers[provider] if !ok { return errors.Errorf(\"oauth2 provider %q not found\", provider) } wantState, ok := authboss.GetSession(r, authboss.SessionOAuth2State) if !ok { return errors.New(\"oauth2 endpoint hit without session state\") } state := r.FormValue(FormValueOAuth2State) if state != wantState { return errOAuthStateValidation } rawParams, ok := authboss.GetSession(r, authboss.SessionOAuth2Params) var params map[string]string if ok { if err := json.Unmarshal([]byte(rawParams), &params); err != nil { return errors.Wrap(err, \"failed to decode oauth2 params\") } } authboss.DelSession(w, authboss.SessionOAuth2State) authboss.DelSession(w, authboss.SessionOAuth2Params) hasErr := r.FormValue(\"error\") if len(hasErr) > 0 { reason := r.FormValue(\"error_reason\") handled, err := o.Authboss.Events.FireAfter(authboss.EventOAuth2Fail, w, r) if err != nil { return err } else if handled { return nil } ro := authboss.RedirectOptions{ Code: http.StatusTemporaryRedirect, RedirectPath: o.Authboss.Config.Paths.OAuth2LoginNotOK, Failure: o.Localizef(r.Context(), authboss.TxtOAuth2LoginNotOK, provider), } return o.Authboss.Core.Redirector.Redirect(w, r, ro) } code := r.FormValue(\"code\") token, err := exchanger(cfg.OAuth2Config, r.Context(), code) if err != nil { return errors.Wrap(err, \"could not validate oauth2 code\") } details, err := cfg.FindUserDetails(r.Context(), *cfg.OAuth2Config, token) if err != nil { return err } storer := authboss.EnsureCanOAuth2(o.Authboss.Config.Storage.Server) user, err := storer.NewFromOAuth2(r.Context(), provider, details) if err != nil { return errors.Wrap(err, \"failed to create oauth2 user from values\") } user.PutOAuth2Provider(provider) user.PutOAuth2AccessToken(token.AccessToken) user.PutOAuth2Expiry(token.Expiry) if len(token.RefreshToken) != 0 { user.PutOAuth2RefreshToken(token.RefreshToken) } if err := storer.SaveOAuth2(r.Context(), user); err != nil { return err } r = r.WithContext(context.WithValue(r.Context(), authboss.CTXKeyUser, user)) handled, err := o.Authboss.Events.FireBefore(authboss.EventOAuth2, w, r) if err != nil { return err } else if handled { return nil } authboss.PutSession(w, authboss.SessionKey, authboss.MakeOAuth2PID(provider, user.GetOAuth2UID())) authboss.DelSession(w, authboss.SessionHalfAuthKey) redirect := o.Authboss.Config.Paths.OAuth2LoginOK query := make(url.Values) for k, v := range params { switch k { case authboss.CookieRemember: if v == \"true\" { r = r.WithContext(context.WithValue(r.Context(), authboss.CTXKeyValues, RMTrue{})) } case FormValueOAuth2Redir: redirect = v default: query.Set(k, v) } } handled, err = o.Authboss.Events.FireAfter(authboss.EventOAuth2, w, r) if err != nil { return err } else if handled { return nil } if len(query) > 0 { redirect = fmt.Sprintf(\"%s?%s\", redirect, query.Encode()) } ro := authboss.RedirectOptions{ Code: http.StatusTemporaryRedirect, RedirectPath: redirect, Success: o.Localizef(r.Context(), authboss.TxtOAuth2LoginOK, provider), } return o.Authboss.Config.Core.Redirector.Redirect(w, r, ro) }"
+def fn_oauth2_RMTrue_GetShouldRemember : String := "func() bool { return true }"
+def consts_oauth2 : List (String × String) := [
+  ("oauth2.FormValueOAuth2State", "\"state\""),
+  ("oauth2.FormValueOAuth2Redir", "\"redir\""),
+  ("oauth2.OAuth2UID", "\"uid\""),
+  ("oauth2.OAuth2Email", "\"email\""),
+  ("oauth2.OAuth2Name", "\"name\""),
+  ("oauth2.googleInfoEndpoint", "`https://www.googleapis.com/userinfo/v2/me`"),
+  ("oauth2.facebookInfoEndpoint", "`https://graph.facebook.com/me?fields=name,email`")
+]
+def eventRegs_oauth2 : List (String × String) := [
+]
+def stateCalls_oauth2 : List (String × String) := [
+  ("oauth2.OAuth2.Start", "PutSession(authboss.SessionOAuth2State, state)"),
+  ("oauth2.OAuth2.Start", "PutSession(authboss.SessionOAuth2Params, string(byt))"),
+  ("oauth2.OAuth2.Start", "DelSession(authboss.SessionOAuth2Params)"),
+  ("oauth2.OAuth2.End", "DelSession(authboss.SessionOAuth2State)"),
+  ("oauth2.OAuth2.End", "DelSession(authboss.SessionOAuth2Params)"),
+  ("oauth2.OAuth2.End", "PutSession(authboss.SessionKey, authboss.MakeOAuth2PID(provider, user.GetOAuth2UID()))"),
+  ("oauth2.OAuth2.End", "DelSession(authboss.SessionHalfAuthKey)")
+]
+def logCalls_oauth2 : List (String × String) := [
+  ("oauth2.OAuth2.Start", "Infof(\"started oauth2 flow for provider: %s\" | provider)"),
+  ("oauth2.OAuth2.End", "Infof(\"finishing oauth2 flow for provider: %s\" | provider)"),
+  ("oauth2.OAuth2.End", "Infof(\"oauth2 login failed: %s, reason: %s\" | hasErr | reason)")
+]
+def routes_oauth2 : List (String × String) := [
+  ("oauth2.OAuth2.Init", "Get init o.Authboss.Core.ErrorHandler.Wrap(o.Start)"),
+  ("oauth2.OAuth2.Init", "Get callback o.Authboss.Core.ErrorHandler.Wrap(o.End)")
+]
+def pkgVars_oauth2 : List (String × String) := [
+  ("oauth2.errOAuthStateValidation", "errors.New(\"could not validate oauth2 state param\")"),
+  ("oauth2.exchanger", "(*oauth2.Config).Exchange"),
+  ("oauth2.clientGet", "(*http.Client).Get")
+]
+def fn_otp_OTP_Init : String := "func(ab *authboss.Authboss) (err error) { o.Authboss = ab if err = o.Authboss.Config.Core.ViewRenderer.Load(PageLogin, PageAdd, PageClear); err != nil { return err } o.Authboss.Config.Core.Router.Get(\"/otp/login\", o.Authboss.Core.ErrorHandler.Wrap(o.LoginGet)) o.Authboss.Config.Core.Router.Post(\"/otp/login\", o.Authboss.Core.ErrorHandler.Wrap(o.LoginPost)) var unauthedResponse authboss.MWRespondOnFailure if ab.Config.Modules.ResponseOnUnauthed != 0 { unauthedResponse = ab.Config.Modules.ResponseOnUnauthed } else if ab.Config.Modules.RoutesRedirectOnUnauthed { unauthedResponse = authboss.RespondRedirect } middleware := authboss.MountedMiddleware2(ab, true, authboss.RequireNone, unauthedResponse) o.Authboss.Config.Core.Router.Get(\"/otp/add\", middleware(o.Authboss.Core.ErrorHandler.Wrap(o.AddGet))) o.Authboss.Config.Core.Router.Post(\"/otp/add\", middleware(o.Authboss.Core.ErrorHandler.Wrap(o.AddPost))) o.Authboss.Config.Core.Router.Get(\"/otp/clear\", middleware(o.Authboss.Core.ErrorHandler.Wrap(o.ClearGet))) o.Authboss.Config.Core.Router.Post(\"/otp/clear\", middleware(o.Authboss.Core.ErrorHandler.Wrap(o.ClearPost))) return nil }"
+def fn_otp_OTP_LoginPost : String := "func(w http.ResponseWriter, r *http.Request) error { validatable, err := o.Authboss.Core.BodyReader.Read(PageLogin, r) if err != nil { return err } creds := authboss.MustHaveUserValues(validatable) pid := creds.GetPID() pidUser, err := o.Authboss.Storage.Server.Load(r.Context(), pid) if err == authboss.ErrUserNotFound { data := authboss.HTMLData{authboss.DataErr: o.Localizef(r.Context(), authboss.TxtInvalidCredentials)} return o.Authboss.Core.Responder.Respond(w, r, http.StatusOK, PageLogin, data) } else if err != nil { return err } otpUser := MustBeOTPable(pidUser) passwords := splitOTPs(otpUser.GetOTPs()) r = r.WithContext(context.WithValue(r.Context(), authboss.CTXKeyUser, pidUser)) inputSum := sha512.Sum512([]byte(creds.GetPassword())) matchPassword := -1 for i, p := range passwords { dbSum, err := base64.StdEncoding.DecodeString(p) if err != nil { return errors.Wrap(err, \"otp in database was not valid base64\") } if 1 == subtle.ConstantTimeCompare(inputSum[:], dbSum) { matchPassword = i break } } var handled bool if matchPassword < 0 { handled, err = o.Authboss.Events.FireAfter(authboss.EventAuthFail, w, r) if err != nil { return err } else if handled { return nil } data := authboss.HTMLData{authboss.DataErr: o.Localizef(r.Context(), authboss.TxtInvalidCredentials)} return o.Authboss.Core.Responder.Respond(w, r, http.StatusOK, PageLogin, data) } passwords[matchPassword] = passwords[len(passwords)-1] passwords = passwords[:len(passwords)-1] otpUser.PutOTPs(joinOTPs(passwords)) if err = o.Authboss.Config.Storage.Server.Save(r.Context(), pidUser); err != nil { return err } r = r.WithContext(context.WithValue(r.Context(), authboss.CTXKeyValues, validatable)) handled, err = o.Events.FireBefore(authboss.EventAuth, w, r) if err != nil { return err } else if handled { return nil } handled, err = o.Events.FireBefore(authboss.EventAuthHijack, w, r) if err != nil { return err } else if handled { return nil } authboss.PutSession(w, authboss.SessionKey, pid) authboss.DelSession(w, authboss.SessionHalfAuthKey) handled, err = o.Authboss.Events.FireAfter(authboss.EventAuth, w, r) if err != nil { return err } else if handled { return nil } ro := authboss.RedirectOptions{ Code: http.StatusTemporaryRedirect, RedirectPath: o.Authboss.Paths.AuthLoginOK, FollowRedirParam: true, } return o.Authboss.Core.Redirector.Redirect(w, r, ro) }"
+def fn_otp_OTP_AddPost : String := "func(w http.ResponseWriter, r *http.Request) error { user, err := o.Authboss.CurrentUser(r) if err != nil { return err } otpUser := MustBeOTPable(user) currentOTPs := splitOTPs(otpUser.GetOTPs()) if len(currentOTPs) >= maxOTPs { data := authboss.HTMLData{authboss.DataValidation: o.Localizef(r.Context(), authboss.TxtTooManyOTPs, maxOTPs)} return o.Core.Responder.Respond(w, r, http.StatusOK, PageAdd, data) } otp, hash, err := generateOTP() if err != nil { return err } currentOTPs = append(currentOTPs, hash) otpUser.PutOTPs(joinOTPs(currentOTPs)) if err := o.Authboss.Config.Storage.Server.Save(r.Context(), user); err != nil { return err } return o.Core.Responder.Respond(w, r, http.StatusOK, PageAdd, authboss.HTMLData{DataOTP: otp}) }"
+def fn_otp_OTP_ClearPost : String := "func(w http.ResponseWriter, r *http.Request) error { user, err := o.Authboss.CurrentUser(r) if err != nil { return err } otpUser := MustBeOTPable(user) otpUser.PutOTPs(\"\") if err := o.Authboss.Config.Storage.Server.Save(r.Context(), user); err != nil { return err } return o.Core.Responder.Respond(w, r, http.StatusOK, PageAdd, authboss.HTMLData{DataNumberOTPs: \"0\"}) }"
+def fn_otp_splitOTPs : String := "func(otps string) []string { if len(otps) == 0 { return nil } return strings.Split(otps, \",\") }"
+def fn_otp_joinOTPs : String := "func(otps []string) string { return strings.Join(otps, \",\") }"
+def fn_otp_generateOTP : String := "func() (otp string, hash string, err error) { secret := make([]byte, otpSize) if _, err = io.ReadFull(rand.Reader, secret); err != nil { return \"\", \"\", err } otp = fmt.Sprintf(\"%x-%x-%x-%x\", secret[0:4], secret[4:8], secret[8:12], secret[12:16], ) sum := sha512.Sum512([]byte(otp)) encoded := make([]byte, base64.StdEncoding.EncodedLen(sha512.Size)) base64.StdEncoding.Encode(encoded, sum[:]) hash = string(encoded) return otp, hash, nil }"
+def consts_otp : List (String × String) := [
+  ("otp.otpSize", "16"),
+  ("otp.maxOTPs", "5"),
+  ("otp.PageLogin", "\"otplogin\""),
+  ("otp.PageAdd", "\"otpadd\""),
+  ("otp.PageClear", "\"otpclear\""),
+  ("otp.DataNumberOTPs", "\"otp_count\""),
+  ("otp.DataOTP", "\"otp\"")
+]
+def eventRegs_otp : List (String × String) := [
+]
+def stateCalls_otp : List (String × String) := [
+  ("otp.OTP.LoginPost", "PutSession(authboss.SessionKey, pid)"),
+  ("otp.OTP.LoginPost", "DelSession(authboss.SessionHalfAuthKey)")
+]
+def logCalls_otp : List (String × String) := [
+  ("otp.OTP.LoginPost", "Infof(\"failed to load user requested by pid: %s\" | pid)"),
+  ("otp.OTP.LoginPost", "Infof(\"user %s failed to log in with otp\" | pid)"),
+  ("otp.OTP.LoginPost", "Infof(\"removing otp password from %s\" | pid)"),
+  ("otp.OTP.LoginPost", "Infof(\"user %s logged in via otp\" | pid)"),
+  ("otp.OTP.AddPost", "Infof(\"generating otp for %s\" | user.GetPID())"),
+  ("otp.OTP.ClearPost", "Infof(\"clearing all otps for user: %s\" | user.GetPID())")
+]
+def routes_otp : List (String × String) := [
+  ("otp.OTP.Init", "Get \"/otp/login\" o.Authboss.Core.ErrorHandler.Wrap(o.LoginGet)"),
+  ("otp.OTP.Init", "Post \"/otp/login\" o.Authboss.Core.ErrorHandler.Wrap(o.LoginPost)"),
+  ("otp.OTP.Init", "Get \"/otp/add\" middleware(o.Authboss.Core.ErrorHandler.Wrap(o.AddGet))"),
+  ("otp.OTP.Init", "Post \"/otp/add\" middleware(o.Authboss.Core.ErrorHandler.Wrap(o.AddPost))"),
+  ("otp.OTP.Init", "Get \"/otp/clear\" middleware(o.Authboss.Core.ErrorHandler.Wrap(o.ClearGet))"),
+  ("otp.OTP.Init", "Post \"/otp/clear\" middleware(o.Authboss.Core.ErrorHandler.Wrap(o.ClearPost))")
+]
+def fn_recover_Recover_Init : String := "func(ab *authboss.Authboss) (err error) { r.Authboss = ab if err := r.Config.Core.ViewRenderer.Load(PageRecoverStart, PageRecoverEnd); err != nil { return err } if err := r.Config.Core.MailRenderer.Load(EmailRecoverHTML, EmailRecoverTxt); err != nil { return err } r.Config.Core.Router.Get(\"/recover\", r.Core.ErrorHandler.Wrap(r.StartGet)) r.Config.Core.Router.Post(\"/recover\", r.Core.ErrorHandler.Wrap(r.StartPost)) r.Config.Core.Router.Get(\"/recover/end\", r.Core.ErrorHandler.Wrap(r.EndGet)) r.Config.Core.Router.Post(\"/recover/end\", r.Core.ErrorHandler.Wrap(r.EndPost)) return nil }"
+def fn_recover_Recover_StartPost : String := "func(w http.ResponseWriter, req *http.Request) error { validatable, err := r.Core.BodyReader.Read(PageRecoverStart, req) if err != nil { return err } if errs := validatable.Validate(); errs != nil { data := authboss.HTMLData{authboss.DataValidation: authboss.ErrorMap(errs)} return r.Core.Responder.Respond(w, req, http.StatusOK, PageRecoverStart, data) } recoverVals := authboss.MustHaveRecoverStartValues(validatable) user, err := r.Storage.Server.Load(req.Context(), recoverVals.GetPID()) if err == authboss.ErrUserNotFound { ro := authboss.RedirectOptions{ Code: http.StatusTemporaryRedirect, RedirectPath: r.Config.Paths.RecoverOK, Success: r.Localizef(req.Context(), authboss.TxtRecoverInitiateSuccessFlash), } return r.Core.Redirector.Redirect(w, req, ro) } else if err != nil { return err } ru := authboss.MustBeRecoverable(user) req = req.WithContext(context.WithValue(req.Context(), authboss.CTXKeyUser, user)) handled, err := r.Events.FireBefore(authboss.EventRecoverStart, w, req) if err != nil { return err } else if handled { return nil } selector, verifier, token, err := r.Config.Core.OneTimeTokenGenerator.GenerateToken() if err != nil { return err } ruWithSecondaries, hasSecondaryEmails := authboss.CanBeRecoverableUserWithSecondaryEmails(user) ru.PutRecoverSelector(selector) ru.PutRecoverVerifier(verifier) ru.PutRecoverExpiry(time.Now().UTC().Add(r.Config.Modules.RecoverTokenDuration)) if err := r.Storage.Server.Save(req.Context(), ru); err != nil { return err } recoveryEmailRecipients := []string{ru.GetEmail()} if hasSecondaryEmails { recoveryEmailRecipients = append(recoveryEmailRecipients, ruWithSecondaries.GetSecondaryEmails()...) } if r.Modules.MailNoGoroutine { r.SendRecoverEmail(req.Context(), recoveryEmailRecipients, token) } else { go r.SendRecoverEmail(req.Context(), recoveryEmailRecipients, token) } _, err = r.Events.FireAfter(authboss.EventRecoverStart, w, req) if err != nil { return err } ro := authboss.RedirectOptions{ Code: http.StatusTemporaryRedirect, RedirectPath: r.Config.Paths.RecoverOK, Success: r.Localizef(req.Context(), authboss.TxtRecoverInitiateSuccessFlash), } return r.Core.Redirector.Redirect(w, req, ro) }"
+def fn_recover_Recover_SendRecoverEmail : String := "func(ctx context.Context, to []string, encodedToken string) { mailURL := r.mailURL(encodedToken) email := authboss.Email{ To: to, From: r.Config.Mail.From, FromName: r.Config.Mail.FromName, Subject: r.Config.Mail.SubjectPrefix + r.Localizef(ctx, authboss.TxtPasswordResetEmailSubject), } ro := authboss.EmailResponseOptions{ HTMLTemplate: EmailRecoverHTML, TextTemplate: EmailRecoverTxt, Data: authboss.HTMLData{ DataRecoverURL: mailURL, }, } if err := r.Email(ctx, email, ro); err != nil { } }"
+def fn_recover_Recover_EndPost : String := "func(w http.ResponseWriter, req *http.Request) error { validatable, err := r.Core.BodyReader.Read(PageRecoverEnd, req) if err != nil { return err } values := authboss.MustHaveRecoverEndValues(validatable) password := values.GetPassword() token := values.GetToken() if errs := validatable.Validate(); errs != nil { data := authboss.HTMLData{ authboss.DataValidation: authboss.ErrorMap(errs), DataRecoverToken: token, } return r.Config.Core.Responder.Respond(w, req, http.StatusOK, PageRecoverEnd, data) } rawToken, err := base64.URLEncoding.DecodeString(token) if err != nil { return r.invalidToken(PageRecoverEnd, w, req) } credsGenerator := r.Core.OneTimeTokenGenerator if len(rawToken) != credsGenerator.TokenSize() { return r.invalidToken(PageRecoverEnd, w, req) } selectorBytes, verifierBytes := credsGenerator.ParseToken(string(rawToken)) selector := base64.StdEncoding.EncodeToString(selectorBytes[:]) storer := authboss.EnsureCanRecover(r.Config.Storage.Server) user, err := storer.LoadByRecoverSelector(req.Context(), selector) if err == authboss.ErrUserNotFound { return r.invalidToken(PageRecoverEnd, w, req) } else if err != nil { return err } if time.Now().UTC().After(user.GetRecoverExpiry()) { return r.invalidToken(PageRecoverEnd, w, req) } dbVerifierBytes, err := base64.StdEncoding.DecodeString(user.GetRecoverVerifier()) if err != nil { return r.invalidToken(PageRecoverEnd, w, req) } if subtle.ConstantTimeEq(int32(len(verifierBytes)), int32(len(dbVerifierBytes))) != 1 || subtle.ConstantTimeCompare(verifierBytes[:], dbVerifierBytes) != 1 { return r.invalidToken(PageRecoverEnd, w, req) } req = req.WithContext(context.WithValue(req.Context(), authboss.CTXKeyUser, user)) handled, err := r.Events.FireBefore(authboss.EventRecoverEnd, w, req) if err != nil { return err } else if handled { return nil } pass, err := r.Config.Core.Hasher.GenerateHash(password) if err != nil { return err } user.PutPassword(pass) user.PutRecoverSelector(\"\") user.PutRecoverVerifier(\"\") user.PutRecoverExpiry(time.Now().UTC()) if err := storer.Save(req.Context(), user); err != nil { return err } _, err = r.Events.FireAfter(authboss.EventRecoverEnd, w, req) if err != nil { return err } successMsg := r.Localizef(req.Context(), authboss.TxtRecoverSuccessMsg) if r.Config.Modules.RecoverLoginAfterRecovery { handled, err = r.Events.FireBefore(authboss.EventAuth, w, req) if err != nil { return err } else if handled { return nil } handled, err = r.Events.FireBefore(authboss.EventAuthHijack, w, req) if err != nil { return err } else if handled { return nil } authboss.PutSession(w, authboss.SessionKey, user.GetPID()) successMsg = r.Localizef(req.Context(), authboss.TxtRecoverAndLoginSuccessMsg) handled, err = r.Events.FireAfter(authboss.EventAuth, w, req) if err != nil { return err } else if handled { return nil } } ro := authboss.RedirectOptions{ Code: http.StatusTemporaryRedirect, RedirectPath: r.Config.Paths.RecoverOK, Success: successMsg, } return r.Config.Core.Redirector.Redirect(w, req, ro) }"
+def fn_recover_Recover_invalidToken : String := "func(page string, w http.ResponseWriter, req *http.Request) error { errorsAll := []error{errors.New(\"recovery token is invalid\")} data := authboss.HTMLData{authboss.DataValidation: authboss.ErrorMap(errorsAll)} return r.Core.Responder.Respond(w, req, http.StatusOK, PageRecoverEnd, data) }"
+def eventRegs_recover : List (String × String) := [
+]
+def stateCalls_recover : List (String × String) := [
+  ("recover.Recover.EndPost", "PutSession(authboss.SessionKey, user.GetPID())")
+]
+def logCalls_recover : List (String × String) := [
+  ("recover.Recover.StartPost", "Info(\"recover validation failed\")"),
+  ("recover.Recover.StartPost", "Infof(\"user %s was attempted to be recovered, user does not exist, faking successful response\" | recoverVals.GetPID())"),
+  ("recover.Recover.StartPost", "Infof(\"user %s password recovery initiated\" | ru.GetPID())"),
+  ("recover.Recover.SendRecoverEmail", "Infof(\"sending recover e-mail to: %s\" | to)"),
+  ("recover.Recover.SendRecoverEmail", "Errorf(\"failed to recover send e-mail to %s: %+v\" | to | err)"),
+  ("recover.Recover.EndPost", "Info(\"recovery validation failed\")"),
+  ("recover.Recover.EndPost", "Infof(\"invalid recover token submitted, base64 decode failed: %+v\" | err)"),
+  ("recover.Recover.EndPost", "Infof(\"invalid recover token submitted, size was wrong: %d\" | len(rawToken))"),
+  ("recover.Recover.EndPost", "Info(\"invalid recover token submitted, user not found\")"),
+  ("recover.Recover.EndPost", "Infof(\"invalid recover token submitted, already expired: %+v\" | err)"),
+  ("recover.Recover.EndPost", "Infof(\"invalid recover verifier stored in database: %s\" | user.GetRecoverVerifier())"),
+  ("recover.Recover.EndPost", "Info(\"stored recover verifier does not match provided one\")")
+]
+def routes_recover : List (String × String) := [
+  ("recover.Recover.Init", "Get \"/recover\" r.Core.ErrorHandler.Wrap(r.StartGet)"),
+  ("recover.Recover.Init", "Post \"/recover\" r.Core.ErrorHandler.Wrap(r.StartPost)"),
+  ("recover.Recover.Init", "Get \"/recover/end\" r.Core.ErrorHandler.Wrap(r.EndGet)"),
+  ("recover.Recover.Init", "Post \"/recover/end\" r.Core.ErrorHandler.Wrap(r.EndPost)")
+]
+def fn_register_Register_Init : String := "func(ab *authboss.Authboss) (err error) { r.Authboss = ab if _, ok := ab.Config.Storage.Server.(authboss.CreatingServerStorer); !ok { return errors.New(\"register module activated but storer could not be upgraded to CreatingServerStorer\") } if err := ab.Config.Core.ViewRenderer.Load(PageRegister); err != nil { return err } sort.Strings(ab.Config.Modules.RegisterPreserveFields) ab.Config.Core.Router.Get(\"/register\", ab.Config.Core.ErrorHandler.Wrap(r.Get)) ab.Config.Core.Router.Post(\"/register\", ab.Config.Core.ErrorHandler.Wrap(r.Post)) return nil }"
+def fn_register_Register_Post : String := "func(w http.ResponseWriter, req *http.Request) error { validatable, err := r.Core.BodyReader.Read(PageRegister, req) if err != nil { return err } var arbitrary map[string]string var preserve map[string]string if arb, ok := validatable.(authboss.ArbitraryValuer); ok { arbitrary = arb.GetValues() preserve = make(map[string]string) for k, v := range arbitrary { if hasString(r.Config.Modules.RegisterPreserveFields, k) { preserve[k] = v } } } errs := validatable.Validate() if errs != nil { data := authboss.HTMLData{ authboss.DataValidation: authboss.ErrorMap(errs), } if preserve != nil { data[authboss.DataPreserve] = preserve } return r.Config.Core.Responder.Respond(w, req, http.StatusOK, PageRegister, data) } userVals := authboss.MustHaveUserValues(validatable) pid, password := userVals.GetPID(), userVals.GetPassword() storer := authboss.EnsureCanCreate(r.Config.Storage.Server) user := authboss.MustBeAuthable(storer.New(req.Context())) pass, err := r.Authboss.Config.Core.Hasher.GenerateHash(password) if err != nil { return err } user.PutPID(pid) user.PutPassword(pass) if arbUser, ok := user.(authboss.ArbitraryUser); ok && arbitrary != nil { arbUser.PutArbitrary(arbitrary) } err = storer.Create(req.Context(), user) switch { case err == authboss.ErrUserFound: errs = []error{errors.New(r.Localizef(req.Context(), authboss.TxtUserAlreadyExists))} data := authboss.HTMLData{ authboss.DataValidation: authboss.ErrorMap(errs), } if preserve != nil { data[authboss.DataPreserve] = preserve } return r.Config.Core.Responder.Respond(w, req, http.StatusOK, PageRegister, data) case err != nil: return err } req = req.WithContext(context.WithValue(req.Context(), authboss.CTXKeyUser, user)) handled, err := r.Events.FireAfter(authboss.EventRegister, w, req) if err != nil { return err } else if handled { return nil } authboss.PutSession(w, authboss.SessionKey, pid) ro := authboss.RedirectOptions{ Code: http.StatusTemporaryRedirect, Success: r.Localizef(req.Context(), authboss.TxtRegisteredAndLoggedIn), RedirectPath: r.Config.Paths.RegisterOK, } return r.Config.Core.Redirector.Redirect(w, req, ro) }"
+def fn_register_hasString : String := "func(arr []string, s string) bool { index := sort.SearchStrings(arr, s) if index < 0 || index >= len(arr) { return false } return arr[index] == s }"
+def eventRegs_register : List (String × String) := [
+]
+def stateCalls_register : List (String × String) := [
+  ("register.Register.Post", "PutSession(authboss.SessionKey, pid)")
+]
+def logCalls_register : List (String × String) := [
+  ("register.Register.Post", "Info(\"registration validation failed\")"),
+  ("register.Register.Post", "Infof(\"user %s attempted to re-register\" | pid)"),
+  ("register.Register.Post", "Infof(\"registered and logged in user %s\" | pid)")
+]
+def routes_register : List (String × String) := [
+  ("register.Register.Init", "Get \"/register\" ab.Config.Core.ErrorHandler.Wrap(r.Get)"),
+  ("register.Register.Init", "Post \"/register\" ab.Config.Core.ErrorHandler.Wrap(r.Post)")
+]
+def fn_remember_Remember_Init : String := "func(ab *authboss.Authboss) error { r.Authboss = ab r.Events.After(authboss.EventAuth, r.RememberAfterAuth) r.Events.After(authboss.EventOAuth2, r.RememberAfterAuth) r.Events.After(authboss.EventRecoverEnd, r.AfterPasswordReset) return nil }"
+def fn_remember_Remember_RememberAfterAuth : String := "func(w http.ResponseWriter, req *http.Request, handled bool) (bool, error) { rmIntf := req.Context().Value(authboss.CTXKeyValues) if rmIntf == nil { return false, nil } else if rm, ok := rmIntf.(authboss.RememberValuer); !ok || !rm.GetShouldRemember() { return false, nil } user := r.Authboss.CurrentUserP(req) hash, token, err := GenerateToken(user.GetPID()) if err != nil { return false, err } storer := authboss.EnsureCanRemember(r.Authboss.Config.Storage.Server) if err = storer.AddRememberToken(req.Context(), user.GetPID(), hash); err != nil { return false, err } authboss.PutCookie(w, authboss.CookieRemember, token) return false, nil }"
+def fn_remember_Middleware : String := "func(ab *authboss.Authboss) func(http.Handler) http.Handler { return func(next http.Handler) http.Handler { return http.HandlerFunc(func(w http.ResponseWriter, r *http.Request) { if id, _ := ab.CurrentUserID(r); len(id) == 0 { if err := Authenticate(ab, w, &r); err != nil { } } next.ServeHTTP(w, r) }) } }"
+def fn_remember_Authenticate : String := "func(ab *authboss.Authboss, w http.ResponseWriter, req **http.Request) error { cookie, ok := authboss.GetCookie(*req, authboss.CookieRemember) if !ok { return nil } rawToken, err := base64.URLEncoding.DecodeString(cookie) if err != nil { authboss.DelCookie(w, authboss.CookieRemember) return nil } index := len(rawToken) - nNonceSize - 1 if index < 0 || rawToken[index] != ';' { authboss.DelCookie(w, authboss.CookieRemember) return nil } pid := string(rawToken[:index]) sum := sha512.Sum512(rawToken) hash := base64.StdEncoding.EncodeToString(sum[:]) storer := authboss.EnsureCanRemember(ab.Config.Storage.Server) err = storer.UseRememberToken((*req).Context(), pid, hash) switch { case err == authboss.ErrTokenNotFound: authboss.DelCookie(w, authboss.CookieRemember) return nil case err != nil: return err } hash, token, err := GenerateToken(pid) if err != nil { return err } if err = storer.AddRememberToken((*req).Context(), pid, hash); err != nil { return errors.Wrap(err, \"failed to save remember me token\") } *req = (*req).WithContext(context.WithValue((*req).Context(), authboss.CTXKeyPID, pid)) authboss.PutSession(w, authboss.SessionKey, pid) authboss.PutSession(w, authboss.SessionHalfAuthKey, \"true\") authboss.DelCookie(w, authboss.CookieRemember) authboss.PutCookie(w, authboss.CookieRemember, token) return nil }"
+def fn_remember_Remember_AfterPasswordReset : String := "func(w http.ResponseWriter, req *http.Request, handled bool) (bool, error) { user, err := r.Authboss.CurrentUser(req) if err != nil { return false, err } storer := authboss.EnsureCanRemember(r.Authboss.Config.Storage.Server) pid := user.GetPID() authboss.DelCookie(w, authboss.CookieRemember) return false, storer.DelRememberTokens(req.Context(), pid) }"
+def fn_remember_GenerateToken : String := "func(pid string) (hash string, token string, err error) { rawToken := make([]byte, nNonceSize+len(pid)+1) copy(rawToken, pid) rawToken[len(pid)] = ';' if _, err := io.ReadFull(rand.Reader, rawToken[len(pid)+1:]); err != nil { return \"\", \"\", errors.Wrap(err, \"failed to create remember me nonce\") } sum := sha512.Sum512(rawToken) return base64.StdEncoding.EncodeToString(sum[:]), base64.URLEncoding.EncodeToString(rawToken), nil }"
+def consts_remember : List (String × String) := [
+  ("remember.nNonceSize", "32")
+]
+def eventRegs_remember : List (String × String) := [
+  ("remember.Remember.Init", "After authboss.EventAuth r.RememberAfterAuth"),
+  ("remember.Remember.Init", "After authboss.EventOAuth2 r.RememberAfterAuth"),
+  ("remember.Remember.Init", "After authboss.EventRecoverEnd r.AfterPasswordReset")
+]
+def stateCalls_remember : List (String × String) := [
+  ("remember.Remember.RememberAfterAuth", "PutCookie(authboss.CookieRemember, token)"),
+  ("remember.Authenticate", "DelCookie(authboss.CookieRemember)"),
+  ("remember.Authenticate", "DelCookie(authboss.CookieRemember)"),
+  ("remember.Authenticate", "DelCookie(authboss.CookieRemember)"),
+  ("remember.Authenticate", "PutSession(authboss.SessionKey, pid)"),
+  ("remember.Authenticate", "PutSession(authboss.SessionHalfAuthKey, \"true\")"),
+  ("remember.Authenticate", "DelCookie(authboss.CookieRemember)"),
+  ("remember.Authenticate", "PutCookie(authboss.CookieRemember, token)"),
+  ("remember.Remember.AfterPasswordReset", "DelCookie(authboss.CookieRemember)")
+]
+def logCalls_remember : List (String × String) := [
+  ("remember.Middleware", "Errorf(\"failed to authenticate user via remember me: %+v\" | err)"),
+  ("remember.Authenticate", "Infof(\"failed to decode remember me cookie, deleting cookie\")"),
+  ("remember.Authenticate", "Infof(\"failed to decode remember me token, deleting cookie\")"),
+  ("remember.Authenticate", "Infof(\"remember me cookie had a token that was not in storage, deleting cookie\")"),
+  ("remember.Remember.AfterPasswordReset", "Infof(\"deleting tokens and rm cookies for user %s due to password reset\" | pid)")
+]
+def fn_defaults_Responder_Respond : String := "func(w http.ResponseWriter, req *http.Request, code int, page string, data authboss.HTMLData) error { ctxData := req.Context().Value(authboss.CTXKeyData) if ctxData != nil { if data == nil { data = authboss.HTMLData{} } data.Merge(ctxData.(authboss.HTMLData)) } rendered, mime, err := r.Renderer.Render(req.Context(), page, data) if err != nil { return err } w.Header().Set(\"Content-Type\", mime) w.WriteHeader(code) _, err = w.Write(rendered) return err }"
+def fn_defaults_Redirector_Redirect : String := "func(w http.ResponseWriter, req *http.Request, ro authboss.RedirectOptions) error { var redirectFunction = r.redirectNonAPI if isAPIRequest(req) { redirectFunction = r.redirectAPI } return redirectFunction(w, req, ro) }"
+def fn_defaults_Redirector_redirectAPI : String := "func(w http.ResponseWriter, req *http.Request, ro authboss.RedirectOptions) error { path := ro.RedirectPath redir := req.FormValue(r.FormValueName) if strings.Contains(redir, \"://\") { redir = \"\" } if len(redir) != 0 && ro.FollowRedirParam { path = redir } var status = \"success\" var message string if len(ro.Success) != 0 { message = ro.Success } if len(ro.Failure) != 0 { status = \"failure\" message = ro.Failure } data := authboss.HTMLData{ \"location\": path, } data[\"status\"] = status if len(message) != 0 { data[\"message\"] = message } body, mime, err := r.Renderer.Render(req.Context(), \"redirect\", data) if err != nil { return err } if len(body) != 0 { w.Header().Set(\"Content-Type\", mime) } if ro.Code != 0 { if r.CorceRedirectTo200 && (ro.Code == http.StatusTemporaryRedirect || ro.Code == http.StatusPermanentRedirect) { w.WriteHeader(http.StatusOK) } else { w.WriteHeader(ro.Code) } } _, err = w.Write(body) return err }"
+def fn_defaults_Redirector_redirectNonAPI : String := "func(w http.ResponseWriter, req *http.Request, ro authboss.RedirectOptions) error { path := ro.RedirectPath redir := req.FormValue(r.FormValueName) if strings.Contains(redir, \"://\") { redir = \"\" } if len(redir) != 0 && ro.FollowRedirParam { path = redir } if len(ro.Success) != 0 { authboss.PutSession(w, authboss.FlashSuccessKey, ro.Success) } if len(ro.Failure) != 0 { authboss.PutSession(w, authboss.FlashErrorKey, ro.Failure) } http.Redirect(w, req, path, http.StatusFound) return nil }"
+def fn_defaults_isAPIRequest : String := "func(r *http.Request) bool { return strings.HasPrefix(r.Header.Get(\"Content-Type\"), \"application/json\") }"
+def fn_defaults_errorHandler_ServeHTTP : String := "func(w http.ResponseWriter, r *http.Request) { err := e.Handler(w, r) if err == nil { return } }"
+def fn_defaults_ErrorHandler_Wrap : String := "func(handler func(w http.ResponseWriter, r *http.Request) error) http.Handler { return errorHandler{ Handler: handler, LogWriter: e.LogWriter, } }"
+def fn_defaults_Router_ServeHTTP : String := "func(w http.ResponseWriter, req *http.Request) { var router http.Handler switch req.Method { case \"GET\": router = r.gets case \"POST\": router = r.posts case \"DELETE\": router = r.deletes default: w.WriteHeader(http.StatusMethodNotAllowed) io.WriteString(w, \"method not allowed\") return } router.ServeHTTP(w, req) }"
+def fn_defaults_JSONRenderer_Render : String := "func(ctx context.Context, page string, data authboss.HTMLData) (output []byte, contentType string, err error) { if data == nil { return []byte(`{\"status\":\"success\"}`), \"application/json\", nil } if _, hasStatus := data[\"status\"]; !hasStatus { failures := j.Failures if len(failures) == 0 { failures = jsonDefaultFailures } status := \"success\" for _, failure := range failures { val, has := data[failure] if has && val != nil { status = \"failure\" break } } data[\"status\"] = status } b, err := json.Marshal(data) if err != nil { return nil, \"\", err } return b, \"application/json\", nil }"
+def fn_defaults_SMTPMailer_Send : String := "func(ctx context.Context, mail authboss.Email) error { if len(mail.TextBody) == 0 && len(mail.HTMLBody) == 0 { return errors.New(\"refusing to send mail without text or html body\") } buf := &bytes.Buffer{} data := struct { Boundary string Mail authboss.Email }{ Boundary: s.boundary(), Mail: mail, } err := emailTmpl.Execute(buf, data) if err != nil { return err } toSend := bytes.Replace(buf.Bytes(), []byte{'\\n'}, []byte{'\\r', '\\n'}, -1) return smtp.SendMail(s.Server, s.Auth, mail.From, mail.To, toSend) }"
+def fn_defaults_SMTPMailer_boundary : String := "func() string { const alphabet = \"abcdefghijklmnopqrstuvwxyz0123456789\" buf := &bytes.Buffer{} for i := 0; i < 23; i++ { buf.WriteByte(alphabet[s.rand.Int()%len(alphabet)]) } return buf.String() }"
+def fn_defaults_NewSMTPMailer : String := "func(server string, auth smtp.Auth) *SMTPMailer { if len(server) == 0 { panic(\"SMTP Mailer must be created with a server string.\") } random := rand.New(rand.NewSource(time.Now().UnixNano())) return &SMTPMailer{server, auth, random} }"
+def fn_defaults_LogMailer_Send : String := "func(ctx context.Context, mail authboss.Email) error { buf := &bytes.Buffer{} data := struct { Boundary string Mail authboss.Email }{ Boundary: \"284fad24nao8f4na284f2n4\", Mail: mail, } err := emailTmpl.Execute(buf, data) if err != nil { return err } toSend := bytes.Replace(buf.Bytes(), []byte{'\\n'}, []byte{'\\r', '\\n'}, -1) _, err = l.Write(toSend) return err }"
+def fn_defaults_Logger_Info : String := "func(s string) { fmt.Fprintf(l.Writer, \"%s [INFO]: %s\\n\", time.Now().UTC().Format(time.RFC3339), s) }"
+def fn_defaults_Logger_Error : String := "func(s string) { fmt.Fprintf(l.Writer, \"%s [EROR]: %s\\n\", time.Now().UTC().Format(time.RFC3339), s) }"
+def fn_defaults_SetCore : String := "func(config *authboss.Config, readJSON, useUsername bool) { logger := NewLogger(os.Stdout) config.Core.Router = NewRouter() config.Core.ErrorHandler = NewErrorHandler(logger) config.Core.Responder = NewResponder(config.Core.ViewRenderer) config.Core.Redirector = NewRedirector(config.Core.ViewRenderer, authboss.FormValueRedirect) config.Core.BodyReader = NewHTTPBodyReader(readJSON, useUsername) config.Core.Mailer = NewLogMailer(os.Stdout) config.Core.Logger = logger }"
+def fn_authboss_Authboss_Init : String := "func(modulesToLoad ...string) error { if a.Config.Core.Hasher == nil { a.Config.Core.Hasher = NewBCryptHasher(a.Config.Modules.BCryptCost) } if len(modulesToLoad) == 0 { modulesToLoad = RegisteredModules() } for _, name := range modulesToLoad { if err := a.loadModule(name); err != nil { return errors.Errorf(\"module %s failed to load: %+v\", name, err) } } return nil }"
+def fn_authboss_Authboss_loadModule : String := "func(name string) error { module, ok := registeredModules[name] if !ok { panic(\"could not find module: \" + name) } var wasPtr bool modVal := reflect.ValueOf(module) if modVal.Kind() == reflect.Ptr { wasPtr = true modVal = modVal.Elem() } modType := modVal.Type() value := reflect.New(modType) if !wasPtr { value = value.Elem() value.Set(modVal) } else { value.Elem().Set(modVal) } mod := value.Interface().(Moduler) a.loadedModules[name] = mod return mod.Init(a) }"
+def fn_authboss_RegisterModule : String := "func(name string, m Moduler) { registeredModules[name] = m }"
+def fn_authboss_New : String := "func() *Authboss { ab := &Authboss{} ab.loadedModules = make(map[string]Moduler) ab.Events = NewEvents() ab.Config.Defaults() return ab }"
+def pkgVars_authboss : List (String × String) := [
+  ("authboss.TxtSuccess", "LocalizationKey{ ID: \"Success\", Default: \"success\", }"),
+  ("authboss.TxtInvalidCredentials", "LocalizationKey{ ID: \"InvalidCredentials\", Default: \"Invalid Credentials\", }"),
+  ("authboss.TxtAuthFailed", "LocalizationKey{ ID: \"AuthFailed\", Default: \"Please login\", }"),
+  ("authboss.TxtUserAlreadyExists", "LocalizationKey{ ID: \"UserAlreadyExists\", Default: \"User already exists\", }"),
+  ("authboss.TxtRegisteredAndLoggedIn", "LocalizationKey{ ID: \"RegisteredAndLoggedIn\", Default: \"Account successfully created, you are now logged in\", }"),
+  ("authboss.TxtConfirmYourAccount", "LocalizationKey{ ID: \"ConfirmYourAccount\", Default: \"Please verify your account, an e-mail has been sent to you.\", }"),
+  ("authboss.TxtAccountNotConfirmed", "LocalizationKey{ ID: \"AccountNotConfirmed\", Default: \"Your account has not been confirmed, please check your e-mail.\", }"),
+  ("authboss.TxtInvalidConfirmToken", "LocalizationKey{ ID: \"InvalidConfirmToken\", Default: \"Your confirmation token is invalid.\", }"),
+  ("authboss.TxtConfrimationSuccess", "LocalizationKey{ ID: \"ConfrimationSuccess\", Default: \"You have successfully confirmed your account.\", }"),
+  ("authboss.TxtConfirmEmailSubject", "LocalizationKey{ ID: \"ConfirmEmailSubject\", Default: \"Confirm New Account\", }"),
+  ("authboss.TxtLocked", "LocalizationKey{ ID: \"Locked\", Default: \"Your account has been locked, please contact the administrator.\", }"),
+  ("authboss.TxtLoggedOut", "LocalizationKey{ ID: \"LoggedOut\", Default: \"You have been logged out\", }"),
+  ("authboss.TxtOAuth2LoginOK", "LocalizationKey{ ID: \"OAuth2LoginOK\", Default: \"Logged in successfully with %s.\", }"),
+  ("authboss.TxtOAuth2LoginNotOK", "LocalizationKey{ ID: \"OAuth2LoginNotOK\", Default: \"%s login cancelled or failed\", }"),
+  ("authboss.TxtRecoverInitiateSuccessFlash", "LocalizationKey{ ID: \"RecoverInitiateSuccessFlash\", Default: \"An email has been sent to you with further instructions on how to reset your password.\", }"),
+  ("authboss.TxtPasswordResetEmailSubject", "LocalizationKey{ ID: \"PasswordResetEmailSubject\", Default: \"Password Reset\", }"),
+  ("authboss.TxtRecoverSuccessMsg", "LocalizationKey{ ID: \"RecoverSuccessMsg\", Default: \"Successfully updated password\", }"),
+  ("authboss.TxtRecoverAndLoginSuccessMsg", "LocalizationKey{ ID: \"RecoverAndLoginSuccessMsg\", Default: \"Successfully updated password and logged in\", }"),
+  ("authboss.TxtTooManyOTPs", "LocalizationKey{ ID: \"TooManyOTPs\", Default: \"You cannot have more than %d one time passwords\", }"),
+  ("authboss.TxtEmailVerifyTriggered", "LocalizationKey{ ID: \"EmailVerifyTriggered\", Default: \"An e-mail has been sent to confirm 2FA activation\", }"),
+  ("authboss.TxtEmailVerifySubject", "LocalizationKey{ ID: \"EmailVerifySubject\", Default: \"Add 2FA to Account\", }"),
+  ("authboss.TxtInvalid2FAVerificationToken", "LocalizationKey{ ID: \"Invalid2FAVerificationToken\", Default: \"Invalid 2FA email verification token\", }"),
+  ("authboss.Txt2FAAuthorizationRequired", "LocalizationKey{ ID: \"2FAAuthorizationRequired\", Default: \"You must first authorize adding 2fa by e-mail\", }"),
+  ("authboss.TxtInvalid2FACode", "LocalizationKey{ ID: \"Invalid2FACode\", Default: \"2FA code was invalid\", }"),
+  ("authboss.TxtRepeated2FACode", "LocalizationKey{ ID: \"Repeated2FACode\", Default: \"2FA code was previously used\", }"),
+  ("authboss.TxtTOTP2FANotActive", "LocalizationKey{ ID: \"TOTP2FANotActive\", Default: \"TOTP 2FA is not active\", }"),
+  ("authboss.TxtSMSNumberRequired", "LocalizationKey{ ID: \"SMSNumberRequired\", Default: \"You must provide a phone number\", }"),
+  ("authboss.TxtSMSWaitToResend", "LocalizationKey{ ID: \"SMSWaitToResend\", Default: \"Please wait a few moments before resending the SMS code\", }"),
+  ("authboss.registeredModules", "make(map[string]Moduler)"),
+  ("authboss.ErrUserFound", "errors.New(\"user found\")"),
+  ("authboss.ErrUserNotFound", "errors.New(\"user not found\")"),
+  ("authboss.ErrTokenNotFound", "errors.New(\"token not found\")"),
+  ("authboss._Event_index", "[...]uint8{0, 13, 22, 37, 48, 61, 76, 93, 108, 120, 139, 157, 168, 187, 208}")
+]
+def pkgVars_auth : List (String × String) := [
+]
+def pkgVars_confirm : List (String × String) := [
+]
+def pkgVars_lock : List (String × String) := [
+]
+def pkgVars_logout : List (String × String) := [
+]
+def pkgVars_otp : List (String × String) := [
+]
+def pkgVars_otp_twofactor : List (String × String) := [
+]
+def pkgVars_otp_twofactor_sms2fa : List (String × String) := [
+  ("otp_twofactor_sms2fa.errSMSRateLimit", "errors.New(\"user sms send rate-limited\")"),
+  ("otp_twofactor_sms2fa.errBadPhoneNumber", "errors.New(\"bad phone number provided\")")
+]
+def pkgVars_otp_twofactor_totp2fa : List (String × String) := [
+  ("otp_twofactor_totp2fa.errNoTOTPEnabled", "errors.New(\"user does not have totp 2fa enabled\")")
+]
+def pkgVars_recover : List (String × String) := [
+]
+def pkgVars_register : List (String × String) := [
+]
+def pkgVars_remember : List (String × String) := [
+]
+def fn_otp_twofactor_sms2fa_SMS_Setup : String := "func() error { if s.Sender == nil { return errors.New(\"must have SMS.Sender set\") } var unauthedResponse authboss.MWRespondOnFailure if s.Config.Modules.ResponseOnUnauthed != 0 { unauthedResponse = s.Config.Modules.ResponseOnUnauthed } else if s.Config.Modules.RoutesRedirectOnUnauthed { unauthedResponse = authboss.RespondRedirect } abmw := authboss.MountedMiddleware2(s.Authboss, true, authboss.RequireFullAuth, unauthedResponse) var middleware, verified func(func(w http.ResponseWriter, r *http.Request) error) http.Handler middleware = func(handler func(http.ResponseWriter, *http.Request) error) http.Handler { return abmw(s.Core.ErrorHandler.Wrap(handler)) } if s.Authboss.Config.Modules.TwoFactorEmailAuthRequired { setupPath := path.Join(s.Authboss.Paths.Mount, \"/2fa/sms/setup\") emailVerify, err := twofactor.SetupEmailVerify(s.Authboss, \"sms\", setupPath) if err != nil { return err } verified = func(handler func(http.ResponseWriter, *http.Request) error) http.Handler { return abmw(emailVerify.Wrap(s.Core.ErrorHandler.Wrap(handler))) } } else { verified = middleware } s.Authboss.Core.Router.Get(\"/2fa/sms/setup\", verified(s.GetSetup)) s.Authboss.Core.Router.Post(\"/2fa/sms/setup\", verified(s.PostSetup)) confirm := &SMSValidator{SMS: s, Page: PageSMSConfirm} s.Authboss.Core.Router.Get(\"/2fa/sms/confirm\", verified(confirm.Get)) s.Authboss.Core.Router.Post(\"/2fa/sms/confirm\", verified(confirm.Post)) remove := &SMSValidator{SMS: s, Page: PageSMSRemove} s.Authboss.Core.Router.Get(\"/2fa/sms/remove\", middleware(remove.Get)) s.Authboss.Core.Router.Post(\"/2fa/sms/remove\", middleware(remove.Post)) validate := &SMSValidator{SMS: s, Page: PageSMSValidate} s.Authboss.Core.Router.Get(\"/2fa/sms/validate\", s.Core.ErrorHandler.Wrap(validate.Get)) s.Authboss.Core.Router.Post(\"/2fa/sms/validate\", s.Core.ErrorHandler.Wrap(validate.Post)) s.Authboss.Events.Before(authboss.EventAuthHijack, s.HijackAuth) return s.Authboss.Core.ViewRenderer.Load( PageSMSConfirm, PageSMSConfirmSuccess, PageSMSRemove, PageSMSRemoveSuccess, PageSMSSetup, PageSMSValidate, ) }"
+def fn_otp_twofactor_sms2fa_SMS_HijackAuth : String := "func(w http.ResponseWriter, r *http.Request, handled bool) (bool, error) { if handled { return false, nil } user := r.Context().Value(authboss.CTXKeyUser).(User) number := user.GetSMSPhoneNumber() if len(number) == 0 { return false, nil } authboss.PutSession(w, SessionSMSPendingPID, user.GetPID()) err := s.SendCodeToUser(w, r, user.GetPID(), number) if err != nil && err != errSMSRateLimit { return false, err } var query string if len(r.URL.RawQuery) != 0 { query = \"?\" + r.URL.RawQuery } ro := authboss.RedirectOptions{ Code: http.StatusTemporaryRedirect, RedirectPath: s.Paths.Mount + \"/2fa/sms/validate\" + query, } return true, s.Authboss.Config.Core.Redirector.Redirect(w, r, ro) }"
+def fn_otp_twofactor_sms2fa_SMS_SendCodeToUser : String := "func(w http.ResponseWriter, r *http.Request, pid, number string) error { code, err := generateRandomCode() if err != nil { return err } if len(number) == 0 { return errBadPhoneNumber } lastStr, ok := authboss.GetSession(r, SessionSMSLast) suppress := false if ok { last, err := strconv.ParseInt(lastStr, 10, 64) if err != nil { return err } suppress = time.Now().UTC().Unix()-last < smsRateLimitSeconds } if suppress { return errSMSRateLimit } authboss.PutSession(w, SessionSMSLast, strconv.FormatInt(time.Now().UTC().Unix(), 10)) authboss.PutSession(w, SessionSMSSecret, code) if err := s.Sender.Send(r.Context(), number, code); err != nil { return err } return nil }"
+def fn_otp_twofactor_sms2fa_SMS_GetSetup : String := "func(w http.ResponseWriter, r *http.Request) error { abUser, err := s.CurrentUser(r) if err != nil { return err } var data authboss.HTMLData numberProvider, ok := abUser.(SMSNumberProvider) if ok { if val := numberProvider.GetSMSPhoneNumberSeed(); len(val) != 0 { data = authboss.HTMLData{DataSMSPhoneNumber: val} } } authboss.DelSession(w, SessionSMSSecret) authboss.DelSession(w, SessionSMSNumber) return s.Core.Responder.Respond(w, r, http.StatusOK, PageSMSSetup, data) }"
+def fn_otp_twofactor_sms2fa_SMS_PostSetup : String := "func(w http.ResponseWriter, r *http.Request) error { abUser, err := s.CurrentUser(r) if err != nil { return err } user := abUser.(User) validator, err := s.Authboss.Config.Core.BodyReader.Read(PageSMSSetup, r) if err != nil { return err } smsVals := MustHaveSMSPhoneNumberValue(validator) number := smsVals.GetPhoneNumber() if len(number) == 0 { data := authboss.HTMLData{ authboss.DataValidation: map[string][]string{FormValuePhoneNumber: { s.Localizef(r.Context(), authboss.TxtSMSNumberRequired), }}, } return s.Core.Responder.Respond(w, r, http.StatusOK, PageSMSSetup, data) } authboss.PutSession(w, SessionSMSNumber, number) if err = s.SendCodeToUser(w, r, user.GetPID(), number); err != nil { return err } ro := authboss.RedirectOptions{ Code: http.StatusTemporaryRedirect, RedirectPath: s.Paths.Mount + \"/2fa/sms/confirm\", } return s.Core.Redirector.Redirect(w, r, ro) }"
+def fn_otp_twofactor_sms2fa_SMSValidator_Post : String := "func(w http.ResponseWriter, r *http.Request) error { abUser, err := s.Authboss.CurrentUser(r) if err == authboss.ErrUserNotFound { pid, ok := authboss.GetSession(r, SessionSMSPendingPID) if ok && len(pid) != 0 { abUser, err = s.Authboss.Config.Storage.Server.Load(r.Context(), pid) } } if err != nil { return err } user := abUser.(User) validator, err := s.Authboss.Config.Core.BodyReader.Read(s.Page, r) if err != nil { return err } smsCodeValues := MustHaveSMSValues(validator) var inputCode, recoveryCode string inputCode = smsCodeValues.GetCode() if s.Page == PageSMSValidate || s.Page == PageSMSRemove { recoveryCode = smsCodeValues.GetRecoveryCode() } if len(recoveryCode) == 0 && len(inputCode) == 0 { return s.sendCode(w, r, user) } if len(recoveryCode) != 0 { return s.validateCode(w, r, user, \"\", recoveryCode) } return s.validateCode(w, r, user, inputCode, \"\") }"
+def fn_otp_twofactor_sms2fa_SMSValidator_sendCode : String := "func(w http.ResponseWriter, r *http.Request, user User) error { var phoneNumber string switch s.Page { case PageSMSConfirm: var ok bool phoneNumber, ok = authboss.GetSession(r, SessionSMSNumber) if !ok { return errors.New(\"request failed, no sms number present in session\") } case PageSMSValidate, PageSMSRemove: phoneNumber = user.GetSMSPhoneNumber() } if len(phoneNumber) == 0 { return errors.Errorf(\"no phone number was available in PostSendCode for user %s\", user.GetPID()) } var data authboss.HTMLData err := s.SendCodeToUser(w, r, user.GetPID(), phoneNumber) if err == errSMSRateLimit { data = authboss.HTMLData{authboss.DataErr: s.Localizef(r.Context(), authboss.TxtSMSWaitToResend)} } else if err != nil { return err } return s.Core.Responder.Respond(w, r, http.StatusOK, s.Page, data) }"
+def fn_otp_twofactor_sms2fa_SMSValidator_validateCode : String := "func(w http.ResponseWriter, r *http.Request, user User, inputCode, recoveryCode string) error { var verified bool if len(recoveryCode) != 0 { var ok bool recoveryCodes := twofactor.DecodeRecoveryCodes(user.GetRecoveryCodes()) recoveryCodes, ok = twofactor.UseRecoveryCode(recoveryCodes, recoveryCode) verified = ok if verified { user.PutRecoveryCodes(twofactor.EncodeRecoveryCodes(recoveryCodes)) if err := s.Authboss.Config.Storage.Server.Save(r.Context(), user); err != nil { return err } } } else { code, ok := authboss.GetSession(r, SessionSMSSecret) if !ok || len(code) == 0 { return errors.Errorf(\"no code in session for user %s\", user.GetPID()) } verified = 1 == subtle.ConstantTimeCompare([]byte(inputCode), []byte(code)) } if !verified { r = r.WithContext(context.WithValue(r.Context(), authboss.CTXKeyUser, user)) handled, err := s.Authboss.Events.FireAfter(authboss.EventAuthFail, w, r) if err != nil { return err } else if handled { return nil } data := authboss.HTMLData{ authboss.DataValidation: map[string][]string{FormValueCode: {s.Localizef(r.Context(), authboss.TxtInvalid2FACode)}}, } return s.Authboss.Core.Responder.Respond(w, r, http.StatusOK, s.Page, data) } var data authboss.HTMLData switch s.Page { case PageSMSConfirm: phoneNumber, ok := authboss.GetSession(r, SessionSMSNumber) if !ok { return errors.New(\"request failed, no sms number present in session\") } codes, err := twofactor.GenerateRecoveryCodes() if err != nil { return err } crypted, err := twofactor.BCryptRecoveryCodes(codes) if err != nil { return err } user.PutSMSPhoneNumber(phoneNumber) user.PutRecoveryCodes(twofactor.EncodeRecoveryCodes(crypted)) if err = s.Authboss.Config.Storage.Server.Save(r.Context(), user); err != nil { return err } authboss.DelSession(w, authboss.Session2FAAuthed) authboss.DelSession(w, SessionSMSSecret) authboss.DelSession(w, SessionSMSNumber) data = authboss.HTMLData{twofactor.DataRecoveryCodes: codes} r = r.WithContext(context.WithValue(r.Context(), authboss.CTXKeyUser, user)) if handled, err := s.Authboss.Events.FireAfter(authboss.EventTwoFactorAdded, w, r); err != nil { return err } else if handled { return nil } case PageSMSRemove: user.PutSMSPhoneNumber(\"\") if err := s.Authboss.Config.Storage.Server.Save(r.Context(), user); err != nil { return err } authboss.DelSession(w, authboss.Session2FA) r = r.WithContext(context.WithValue(r.Context(), authboss.CTXKeyUser, user)) if handled, err := s.Authboss.Events.FireAfter(authboss.EventTwoFactorRemoved, w, r); err != nil { return err } else if handled { return nil } case PageSMSValidate: authboss.PutSession(w, authboss.SessionKey, user.GetPID()) authboss.PutSession(w, authboss.Session2FA, \"sms\") authboss.DelSession(w, authboss.SessionHalfAuthKey) authboss.DelSession(w, SessionSMSPendingPID) authboss.DelSession(w, SessionSMSSecret) r = r.WithContext(context.WithValue(r.Context(), authboss.CTXKeyUser, user)) handled, err := s.Authboss.Events.FireAfter(authboss.EventAuth, w, r) if err != nil { return err } else if handled { return nil } ro := authboss.RedirectOptions{ Code: http.StatusTemporaryRedirect, RedirectPath: s.Authboss.Config.Paths.AuthLoginOK, FollowRedirParam: true, } return s.Authboss.Core.Redirector.Redirect(w, r, ro) default: return errors.New(\"unknown action for sms validate\") } return s.Authboss.Core.Responder.Respond(w, r, http.StatusOK, s.Page+successSuffix, data) }"
+def fn_otp_twofactor_sms2fa_generateRandomCode : String := "func() (code string, err error) { sb := new(strings.Builder) random := make([]byte, smsCodeLength) if _, err = io.ReadFull(rand.Reader, random); err != nil { return \"\", err } for i := range random { sb.WriteByte(random[i]%10 + 48) } return sb.String(), nil }"
+def consts_otp_twofactor_sms2fa : List (String × String) := [
+  ("otp_twofactor_sms2fa.SessionSMSNumber", "\"sms_number\""),
+  ("otp_twofactor_sms2fa.SessionSMSSecret", "\"sms_secret\""),
+  ("otp_twofactor_sms2fa.SessionSMSLast", "\"sms_last\""),
+  ("otp_twofactor_sms2fa.SessionSMSPendingPID", "\"sms_pending\""),
+  ("otp_twofactor_sms2fa.FormValueCode", "\"code\""),
+  ("otp_twofactor_sms2fa.FormValuePhoneNumber", "\"phone_number\""),
+  ("otp_twofactor_sms2fa.successSuffix", "\"_success\""),
+  ("otp_twofactor_sms2fa.PageSMSConfirm", "\"sms2fa_confirm\""),
+  ("otp_twofactor_sms2fa.PageSMSConfirmSuccess", "\"sms2fa_confirm_success\""),
+  ("otp_twofactor_sms2fa.PageSMSRemove", "\"sms2fa_remove\""),
+  ("otp_twofactor_sms2fa.PageSMSRemoveSuccess", "\"sms2fa_remove_success\""),
+  ("otp_twofactor_sms2fa.PageSMSSetup", "\"sms2fa_setup\""),
+  ("otp_twofactor_sms2fa.PageSMSValidate", "\"sms2fa_validate\""),
+  ("otp_twofactor_sms2fa.DataSMSSecret", "SessionSMSSecret"),
+  ("otp_twofactor_sms2fa.DataSMSPhoneNumber", "\"sms_phone_number\""),
+  ("otp_twofactor_sms2fa.smsCodeLength", "6"),
+  ("otp_twofactor_sms2fa.smsRateLimitSeconds", "10")
+]
+def eventRegs_otp_twofactor_sms2fa : List (String × String) := [
+  ("otp_twofactor_sms2fa.SMS.Setup", "Before authboss.EventAuthHijack s.HijackAuth")
+]
+def stateCalls_otp_twofactor_sms2fa : List (String × String) := [
+  ("otp_twofactor_sms2fa.SMS.HijackAuth", "PutSession(SessionSMSPendingPID, user.GetPID())"),
+  ("otp_twofactor_sms2fa.SMS.SendCodeToUser", "PutSession(SessionSMSLast, strconv.FormatInt(time.Now().UTC().Unix(), 10))"),
+  ("otp_twofactor_sms2fa.SMS.SendCodeToUser", "PutSession(SessionSMSSecret, code)"),
+  ("otp_twofactor_sms2fa.SMS.GetSetup", "DelSession(SessionSMSSecret)"),
+  ("otp_twofactor_sms2fa.SMS.GetSetup", "DelSession(SessionSMSNumber)"),
+  ("otp_twofactor_sms2fa.SMS.PostSetup", "PutSession(SessionSMSNumber, number)"),
+  ("otp_twofactor_sms2fa.SMSValidator.validateCode", "DelSession(authboss.Session2FAAuthed)"),
+  ("otp_twofactor_sms2fa.SMSValidator.validateCode", "DelSession(SessionSMSSecret)"),
+  ("otp_twofactor_sms2fa.SMSValidator.validateCode", "DelSession(SessionSMSNumber)"),
+  ("otp_twofactor_sms2fa.SMSValidator.validateCode", "DelSession(authboss.Session2FA)"),
+  ("otp_twofactor_sms2fa.SMSValidator.validateCode", "PutSession(authboss.SessionKey, user.GetPID())"),
+  ("otp_twofactor_sms2fa.SMSValidator.validateCode", "PutSession(authboss.Session2FA, \"sms\")"),
+  ("otp_twofactor_sms2fa.SMSValidator.validateCode", "DelSession(authboss.SessionHalfAuthKey)"),
+  ("otp_twofactor_sms2fa.SMSValidator.validateCode", "DelSession(SessionSMSPendingPID)"),
+  ("otp_twofactor_sms2fa.SMSValidator.validateCode", "DelSession(SessionSMSSecret)")
+]
+def logCalls_otp_twofactor_sms2fa : List (String × String) := [
+  ("otp_twofactor_sms2fa.SMS.SendCodeToUser", "Infof(\"rate-limited sms for %s to %s\" | pid | number)"),
+  ("otp_twofactor_sms2fa.SMS.SendCodeToUser", "Infof(\"sending sms for %s to %s\" | pid | number)"),
+  ("otp_twofactor_sms2fa.SMS.SendCodeToUser", "Infof(\"failed to send sms for %s to %s: %+v\" | pid | number | err)"),
+  ("otp_twofactor_sms2fa.SMSValidator.validateCode", "Infof(\"user %s used recovery code instead of sms2fa\" | user.GetPID())"),
+  ("otp_twofactor_sms2fa.SMSValidator.validateCode", "Infof(\"user %s sms 2fa failure (wrong code)\" | user.GetPID())"),
+  ("otp_twofactor_sms2fa.SMSValidator.validateCode", "Infof(\"user %s enabled sms 2fa\" | user.GetPID())"),
+  ("otp_twofactor_sms2fa.SMSValidator.validateCode", "Infof(\"user %s disabled sms 2fa\" | user.GetPID())"),
+  ("otp_twofactor_sms2fa.SMSValidator.validateCode", "Infof(\"user %s sms 2fa success\" | user.GetPID())")
+]
+def routes_otp_twofactor_sms2fa : List (String × String) := [
+  ("otp_twofactor_sms2fa.SMS.Setup", "Get \"/2fa/sms/setup\" verified(s.GetSetup)"),
+  ("otp_twofactor_sms2fa.SMS.Setup", "Post \"/2fa/sms/setup\" verified(s.PostSetup)"),
+  ("otp_twofactor_sms2fa.SMS.Setup", "Get \"/2fa/sms/confirm\" verified(confirm.Get)"),
+  ("otp_twofactor_sms2fa.SMS.Setup", "Post \"/2fa/sms/confirm\" verified(confirm.Post)"),
+  ("otp_twofactor_sms2fa.SMS.Setup", "Get \"/2fa/sms/remove\" middleware(remove.Get)"),
+  ("otp_twofactor_sms2fa.SMS.Setup", "Post \"/2fa/sms/remove\" middleware(remove.Post)"),
+  ("otp_twofactor_sms2fa.SMS.Setup", "Get \"/2fa/sms/validate\" s.Core.ErrorHandler.Wrap(validate.Get)"),
+  ("otp_twofactor_sms2fa.SMS.Setup", "Post \"/2fa/sms/validate\" s.Core.ErrorHandler.Wrap(validate.Post)")
+]
+def fn_otp_twofactor_totp2fa_TOTP_Setup : String := "func() error { var unauthedResponse authboss.MWRespondOnFailure if t.Config.Modules.ResponseOnUnauthed != 0 { unauthedResponse = t.Config.Modules.ResponseOnUnauthed } else if t.Config.Modules.RoutesRedirectOnUnauthed { unauthedResponse = authboss.RespondRedirect } abmw := authboss.MountedMiddleware2(t.Authboss, true, authboss.RequireFullAuth, unauthedResponse) var middleware, verified func(func(w http.ResponseWriter, r *http.Request) error) http.Handler middleware = func(handler func(http.ResponseWriter, *http.Request) error) http.Handler { return abmw(t.Core.ErrorHandler.Wrap(handler)) } if t.Authboss.Config.Modules.TwoFactorEmailAuthRequired { setupPath := path.Join(t.Authboss.Paths.Mount, \"/2fa/totp/setup\") emailVerify, err := twofactor.SetupEmailVerify(t.Authboss, \"totp\", setupPath) if err != nil { return err } verified = func(handler func(http.ResponseWriter, *http.Request) error) http.Handler { return abmw(emailVerify.Wrap(t.Core.ErrorHandler.Wrap(handler))) } } else { verified = middleware } t.Authboss.Core.Router.Get(\"/2fa/totp/setup\", verified(t.GetSetup)) t.Authboss.Core.Router.Post(\"/2fa/totp/setup\", verified(t.PostSetup)) t.Authboss.Core.Router.Get(\"/2fa/totp/qr\", verified(t.GetQRCode)) t.Authboss.Core.Router.Get(\"/2fa/totp/confirm\", verified(t.GetConfirm)) t.Authboss.Core.Router.Post(\"/2fa/totp/confirm\", verified(t.PostConfirm)) t.Authboss.Core.Router.Get(\"/2fa/totp/remove\", middleware(t.GetRemove)) t.Authboss.Core.Router.Post(\"/2fa/totp/remove\", middleware(t.PostRemove)) t.Authboss.Core.Router.Get(\"/2fa/totp/validate\", t.Core.ErrorHandler.Wrap(t.GetValidate)) t.Authboss.Core.Router.Post(\"/2fa/totp/validate\", t.Core.ErrorHandler.Wrap(t.PostValidate)) t.Authboss.Events.Before(authboss.EventAuthHijack, t.HijackAuth) return t.Authboss.Core.ViewRenderer.Load( PageTOTPSetup, PageTOTPValidate, PageTOTPConfirm, PageTOTPConfirmSuccess, PageTOTPRemove, PageTOTPRemoveSuccess, ) }"
+def fn_otp_twofactor_totp2fa_TOTP_HijackAuth : String := "func(w http.ResponseWriter, r *http.Request, handled bool) (bool, error) { if handled { return false, nil } user := r.Context().Value(authboss.CTXKeyUser).(User) if len(user.GetTOTPSecretKey()) == 0 { return false, nil } authboss.PutSession(w, SessionTOTPPendingPID, user.GetPID()) var query string if len(r.URL.RawQuery) != 0 { query = \"?\" + r.URL.RawQuery } ro := authboss.RedirectOptions{ Code: http.StatusTemporaryRedirect, RedirectPath: t.Paths.Mount + \"/2fa/totp/validate\" + query, } return true, t.Authboss.Config.Core.Redirector.Redirect(w, r, ro) }"
+def fn_otp_twofactor_totp2fa_TOTP_GetSetup : String := "func(w http.ResponseWriter, r *http.Request) error { authboss.DelSession(w, SessionTOTPSecret) return t.Core.Responder.Respond(w, r, http.StatusOK, PageTOTPSetup, nil) }"
+def fn_otp_twofactor_totp2fa_TOTP_PostSetup : String := "func(w http.ResponseWriter, r *http.Request) error { abUser, err := t.CurrentUser(r) if err != nil { return err } user := abUser.(User) key, err := totp.Generate(totp.GenerateOpts{ Issuer: t.Authboss.Config.Modules.TOTP2FAIssuer, AccountName: user.GetEmail(), }) if err != nil { return errors.Wrap(err, \"failed to create a totp key\") } secret := key.Secret() authboss.PutSession(w, SessionTOTPSecret, secret) ro := authboss.RedirectOptions{ Code: http.StatusTemporaryRedirect, RedirectPath: t.Paths.Mount + \"/2fa/totp/confirm\", } return t.Core.Redirector.Redirect(w, r, ro) }"
+def fn_otp_twofactor_totp2fa_TOTP_PostConfirm : String := "func(w http.ResponseWriter, r *http.Request) error { abUser, err := t.CurrentUser(r) if err != nil { return err } user := abUser.(User) totpSecret, ok := authboss.GetSession(r, SessionTOTPSecret) if !ok { return errors.New(\"request failed, no totp secret present in session\") } validator, err := t.Authboss.Config.Core.BodyReader.Read(PageTOTPConfirm, r) if err != nil { return err } totpCodeValues := MustHaveTOTPCodeValues(validator) inputCode := totpCodeValues.GetCode() ok = totp.Validate(inputCode, totpSecret) if !ok { data := authboss.HTMLData{ authboss.DataValidation: map[string][]string{FormValueCode: { t.Localizef(r.Context(), authboss.TxtInvalid2FACode), }}, DataTOTPSecret: totpSecret, } return t.Authboss.Core.Responder.Respond(w, r, http.StatusOK, PageTOTPConfirm, data) } codes, err := twofactor.GenerateRecoveryCodes() if err != nil { return err } crypted, err := twofactor.BCryptRecoveryCodes(codes) if err != nil { return err } user.PutTOTPSecretKey(totpSecret) user.PutRecoveryCodes(twofactor.EncodeRecoveryCodes(crypted)) if oneTime, ok := user.(UserOneTime); ok { oneTime.PutTOTPLastCode(inputCode) } if err = t.Authboss.Config.Storage.Server.Save(r.Context(), user); err != nil { return err } authboss.DelSession(w, SessionTOTPSecret) authboss.DelSession(w, authboss.Session2FAAuthed) r = r.WithContext(context.WithValue(r.Context(), authboss.CTXKeyUser, user)) if handled, err := t.Authboss.Events.FireAfter(authboss.EventTwoFactorAdded, w, r); err != nil { return err } else if handled { return nil } data := authboss.HTMLData{twofactor.DataRecoveryCodes: codes} return t.Authboss.Core.Responder.Respond(w, r, http.StatusOK, PageTOTPConfirmSuccess, data) }"
+def fn_otp_twofactor_totp2fa_TOTP_PostRemove : String := "func(w http.ResponseWriter, r *http.Request) error { user, status, err := t.validate(r) switch { case err == errNoTOTPEnabled: data := authboss.HTMLData{authboss.DataErr: t.Localizef(r.Context(), authboss.TxtTOTP2FANotActive)} return t.Authboss.Core.Responder.Respond(w, r, http.StatusOK, PageTOTPRemove, data) case err != nil: return err case status != t.Localizef(r.Context(), authboss.TxtSuccess): data := authboss.HTMLData{ authboss.DataValidation: map[string][]string{FormValueCode: {status}}, } return t.Authboss.Core.Responder.Respond(w, r, http.StatusOK, PageTOTPRemove, data) } authboss.DelSession(w, authboss.Session2FA) user.PutTOTPSecretKey(\"\") if err = t.Authboss.Config.Storage.Server.Save(r.Context(), user); err != nil { return err } r = r.WithContext(context.WithValue(r.Context(), authboss.CTXKeyUser, user)) if handled, err := t.Authboss.Events.FireAfter(authboss.EventTwoFactorRemoved, w, r); err != nil { return err } else if handled { return nil } return t.Authboss.Core.Responder.Respond(w, r, http.StatusOK, PageTOTPRemoveSuccess, nil) }"
+def fn_otp_twofactor_totp2fa_TOTP_PostValidate : String := "func(w http.ResponseWriter, r *http.Request) error { user, status, err := t.validate(r) switch { case err == errNoTOTPEnabled: data := authboss.HTMLData{authboss.DataErr: t.Localizef( r.Context(), authboss.TxtTOTP2FANotActive)} return t.Authboss.Core.Responder.Respond(w, r, http.StatusOK, PageTOTPValidate, data) case err != nil: return err case status != t.Localizef(r.Context(), authboss.TxtSuccess): r = r.WithContext(context.WithValue(r.Context(), authboss.CTXKeyUser, user)) handled, err := t.Authboss.Events.FireAfter(authboss.EventAuthFail, w, r) if err != nil { return err } else if handled { return nil } data := authboss.HTMLData{ authboss.DataValidation: map[string][]string{FormValueCode: {status}}, } return t.Authboss.Core.Responder.Respond(w, r, http.StatusOK, PageTOTPValidate, data) } if _, ok := user.(UserOneTime); ok { if err = t.Authboss.Config.Storage.Server.Save(r.Context(), user); err != nil { return err } } authboss.PutSession(w, authboss.SessionKey, user.GetPID()) authboss.PutSession(w, authboss.Session2FA, \"totp\") authboss.DelSession(w, authboss.SessionHalfAuthKey) authboss.DelSession(w, SessionTOTPPendingPID) authboss.DelSession(w, SessionTOTPSecret) r = r.WithContext(context.WithValue(r.Context(), authboss.CTXKeyUser, user)) handled, err := t.Authboss.Events.FireAfter(authboss.EventAuth, w, r) if err != nil { return err } else if handled { return nil } ro := authboss.RedirectOptions{ Code: http.StatusTemporaryRedirect, RedirectPath: t.Authboss.Config.Paths.AuthLoginOK, FollowRedirParam: true, } return t.Authboss.Core.Redirector.Redirect(w, r, ro) }"
+def fn_otp_twofactor_totp2fa_TOTP_validate : String := "func(r *http.Request) (User, string, error) { abUser, err := t.CurrentUser(r) if err == authboss.ErrUserNotFound { pid, ok := authboss.GetSession(r, SessionTOTPPendingPID) if ok && len(pid) != 0 { abUser, err = t.Authboss.Config.Storage.Server.Load(r.Context(), pid) } } if err != nil { return nil, \"\", err } user := abUser.(User) secret := user.GetTOTPSecretKey() if len(secret) == 0 { return user, \"\", errNoTOTPEnabled } validator, err := t.Authboss.Config.Core.BodyReader.Read(PageTOTPValidate, r) if err != nil { return nil, \"\", err } totpCodeValues := MustHaveTOTPCodeValues(validator) if recoveryCode := totpCodeValues.GetRecoveryCode(); len(recoveryCode) != 0 { var ok bool recoveryCodes := twofactor.DecodeRecoveryCodes(user.GetRecoveryCodes()) recoveryCodes, ok = twofactor.UseRecoveryCode(recoveryCodes, recoveryCode) if ok { user.PutRecoveryCodes(twofactor.EncodeRecoveryCodes(recoveryCodes)) if err := t.Authboss.Config.Storage.Server.Save(r.Context(), user); err != nil { return nil, \"\", err } } else { return user, t.Localizef(r.Context(), authboss.TxtInvalid2FACode), nil } return user, t.Localizef(r.Context(), authboss.TxtSuccess), nil } input := totpCodeValues.GetCode() if oneTime, ok := user.(UserOneTime); ok { oldCode := oneTime.GetTOTPLastCode() if oldCode == input { return user, t.Localizef(r.Context(), authboss.TxtRepeated2FACode), nil } oneTime.PutTOTPLastCode(input) } if !totp.Validate(input, secret) { return user, t.Localizef(r.Context(), authboss.TxtInvalid2FACode), nil } return user, t.Localizef(r.Context(), authboss.TxtSuccess), nil }"
+def consts_otp_twofactor_totp2fa : List (String × String) := [
+  ("otp_twofactor_totp2fa.otpKeyFormat", "\"otpauth://totp/%s:%s?issuer=%s&secret=%s\""),
+  ("otp_twofactor_totp2fa.SessionTOTPSecret", "\"totp_secret\""),
+  ("otp_twofactor_totp2fa.SessionTOTPPendingPID", "\"totp_pending\""),
+  ("otp_twofactor_totp2fa.PageTOTPConfirm", "\"totp2fa_confirm\""),
+  ("otp_twofactor_totp2fa.PageTOTPConfirmSuccess", "\"totp2fa_confirm_success\""),
+  ("otp_twofactor_totp2fa.PageTOTPRemove", "\"totp2fa_remove\""),
+  ("otp_twofactor_totp2fa.PageTOTPRemoveSuccess", "\"totp2fa_remove_success\""),
+  ("otp_twofactor_totp2fa.PageTOTPSetup", "\"totp2fa_setup\""),
+  ("otp_twofactor_totp2fa.PageTOTPValidate", "\"totp2fa_validate\""),
+  ("otp_twofactor_totp2fa.FormValueCode", "\"code\""),
+  ("otp_twofactor_totp2fa.DataTOTPSecret", "SessionTOTPSecret")
+]
+def eventRegs_otp_twofactor_totp2fa : List (String × String) := [
+  ("otp_twofactor_totp2fa.TOTP.Setup", "Before authboss.EventAuthHijack t.HijackAuth")
+]
+def stateCalls_otp_twofactor_totp2fa : List (String × String) := [
+  ("otp_twofactor_totp2fa.TOTP.HijackAuth", "PutSession(SessionTOTPPendingPID, user.GetPID())"),
+  ("otp_twofactor_totp2fa.TOTP.GetSetup", "DelSession(SessionTOTPSecret)"),
+  ("otp_twofactor_totp2fa.TOTP.PostSetup", "PutSession(SessionTOTPSecret, secret)"),
+  ("otp_twofactor_totp2fa.TOTP.PostConfirm", "DelSession(SessionTOTPSecret)"),
+  ("otp_twofactor_totp2fa.TOTP.PostConfirm", "DelSession(authboss.Session2FAAuthed)"),
+  ("otp_twofactor_totp2fa.TOTP.PostRemove", "DelSession(authboss.Session2FA)"),
+  ("otp_twofactor_totp2fa.TOTP.PostValidate", "PutSession(authboss.SessionKey, user.GetPID())"),
+  ("otp_twofactor_totp2fa.TOTP.PostValidate", "PutSession(authboss.Session2FA, \"totp\")"),
+  ("otp_twofactor_totp2fa.TOTP.PostValidate", "DelSession(authboss.SessionHalfAuthKey)"),
+  ("otp_twofactor_totp2fa.TOTP.PostValidate", "DelSession(SessionTOTPPendingPID)"),
+  ("otp_twofactor_totp2fa.TOTP.PostValidate", "DelSession(SessionTOTPSecret)")
+]
+def logCalls_otp_twofactor_totp2fa : List (String × String) := [
+  ("otp_twofactor_totp2fa.TOTP.PostConfirm", "Infof(\"user %s enabled totp 2fa\" | user.GetPID())"),
+  ("otp_twofactor_totp2fa.TOTP.PostRemove", "Infof(\"user %s totp 2fa removal failure (%s)\" | user.GetPID() | status)"),
+  ("otp_twofactor_totp2fa.TOTP.PostRemove", "Infof(\"user %s disabled totp 2fa\" | user.GetPID())"),
+  ("otp_twofactor_totp2fa.TOTP.PostValidate", "Infof(\"user %s totp failure (not enabled)\" | user.GetPID())"),
+  ("otp_twofactor_totp2fa.TOTP.PostValidate", "Infof(\"user %s totp 2fa failure (%s)\" | user.GetPID() | status)"),
+  ("otp_twofactor_totp2fa.TOTP.PostValidate", "Infof(\"user %s totp 2fa success\" | user.GetPID())"),
+  ("otp_twofactor_totp2fa.TOTP.validate", "Infof(\"user %s used recovery code instead of sms2fa\" | user.GetPID())")
+]
+def routes_otp_twofactor_totp2fa : List (String × String) := [
+  ("otp_twofactor_totp2fa.TOTP.Setup", "Get \"/2fa/totp/setup\" verified(t.GetSetup)"),
+  ("otp_twofactor_totp2fa.TOTP.Setup", "Post \"/2fa/totp/setup\" verified(t.PostSetup)"),
+  ("otp_twofactor_totp2fa.TOTP.Setup", "Get \"/2fa/totp/qr\" verified(t.GetQRCode)"),
+  ("otp_twofactor_totp2fa.TOTP.Setup", "Get \"/2fa/totp/confirm\" verified(t.GetConfirm)"),
+  ("otp_twofactor_totp2fa.TOTP.Setup", "Post \"/2fa/totp/confirm\" verified(t.PostConfirm)"),
+  ("otp_twofactor_totp2fa.TOTP.Setup", "Get \"/2fa/totp/remove\" middleware(t.GetRemove)"),
+  ("otp_twofactor_totp2fa.TOTP.Setup", "Post \"/2fa/totp/remove\" middleware(t.PostRemove)"),
+  ("otp_twofactor_totp2fa.TOTP.Setup", "Get \"/2fa/totp/validate\" t.Core.ErrorHandler.Wrap(t.GetValidate)"),
+  ("otp_twofactor_totp2fa.TOTP.Setup", "Post \"/2fa/totp/validate\" t.Core.ErrorHandler.Wrap(t.PostValidate)")
+]
+def fn_otp_twofactor_Recovery_Setup : String := "func() error { var unauthedResponse authboss.MWRespondOnFailure if rc.Config.Modules.ResponseOnUnauthed != 0 { unauthedResponse = rc.Config.Modules.ResponseOnUnauthed } else if rc.Config.Modules.RoutesRedirectOnUnauthed { unauthedResponse = authboss.RespondRedirect } middleware := authboss.MountedMiddleware2(rc.Authboss, true, authboss.RequireFullAuth, unauthedResponse) rc.Authboss.Core.Router.Get(\"/2fa/recovery/regen\", middleware(rc.Authboss.Core.ErrorHandler.Wrap(rc.GetRegen))) rc.Authboss.Core.Router.Post(\"/2fa/recovery/regen\", middleware(rc.Authboss.Core.ErrorHandler.Wrap(rc.PostRegen))) return rc.Authboss.Core.ViewRenderer.Load(PageRecovery2FA) }"
+def fn_otp_twofactor_Recovery_PostRegen : String := "func(w http.ResponseWriter, r *http.Request) error { abUser, err := rc.CurrentUser(r) if err != nil { return err } user := abUser.(User) codes, err := GenerateRecoveryCodes() if err != nil { return err } hashedCodes, err := BCryptRecoveryCodes(codes) if err != nil { return err } user.PutRecoveryCodes(EncodeRecoveryCodes(hashedCodes)) if err = rc.Authboss.Config.Storage.Server.Save(r.Context(), user); err != nil { return err } data := authboss.HTMLData{DataRecoveryCodes: codes} return rc.Authboss.Core.Responder.Respond(w, r, http.StatusOK, PageRecovery2FA, data) }"
+def fn_otp_twofactor_GenerateRecoveryCodes : String := "func() ([]string, error) { byt := make([]byte, 10*recoveryCodeLength) if _, err := io.ReadFull(rand.Reader, byt); err != nil { return nil, err } codes := make([]string, 10) for i := range codes { builder := new(strings.Builder) for j := 0; j < recoveryCodeLength; j++ { if recoveryCodeLength/2 == j { builder.WriteByte('-') } randNumber := byt[i*recoveryCodeLength+j] % byte(len(alphabet)) builder.WriteByte(alphabet[randNumber]) } codes[i] = builder.String() } return codes, nil }"
+def fn_otp_twofactor_BCryptRecoveryCodes : String := "func(codes []string) ([]string, error) { cryptedCodes := make([]string, len(codes)) for i, c := range codes { hash, err := bcrypt.GenerateFromPassword([]byte(c), bcrypt.DefaultCost) if err != nil { return nil, err } cryptedCodes[i] = string(hash) } return cryptedCodes, nil }"
+def fn_otp_twofactor_UseRecoveryCode : String := "func(codes []string, inputCode string) ([]string, bool) { input := []byte(inputCode) use := -1 for i, c := range codes { err := bcrypt.CompareHashAndPassword([]byte(c), input) if err == nil { use = i break } } if use < 0 { return nil, false } ret := make([]string, len(codes)-1) for j := range codes { if j == use { continue } set := j if j > use { set-- } ret[set] = codes[j] } return ret, true }"
+def fn_otp_twofactor_EncodeRecoveryCodes : String := "func(codes []string) string { return strings.Join(codes, \",\") }"
+def fn_otp_twofactor_DecodeRecoveryCodes : String := "func(codes string) []string { return strings.Split(codes, \",\") }"
+def fn_otp_twofactor_SetupEmailVerify : String := "func(ab *authboss.Authboss, twofactorKind, setupURL string) (EmailVerify, error) { e := EmailVerify{ Authboss: ab, TwofactorKind: twofactorKind, TwofactorSetupURL: setupURL, } var unauthedResponse authboss.MWRespondOnFailure if ab.Config.Modules.ResponseOnUnauthed != 0 { unauthedResponse = ab.Config.Modules.ResponseOnUnauthed } else if ab.Config.Modules.RoutesRedirectOnUnauthed { unauthedResponse = authboss.RespondRedirect } middleware := authboss.MountedMiddleware2(ab, true, authboss.RequireFullAuth, unauthedResponse) e.Authboss.Core.Router.Get(\"/2fa/\"+twofactorKind+\"/email/verify\", middleware(ab.Core.ErrorHandler.Wrap(e.GetStart))) e.Authboss.Core.Router.Post(\"/2fa/\"+twofactorKind+\"/email/verify\", middleware(ab.Core.ErrorHandler.Wrap(e.PostStart))) var routerMethod func(string, http.Handler) switch ab.Config.Modules.MailRouteMethod { case http.MethodGet: routerMethod = ab.Core.Router.Get case http.MethodPost: routerMethod = ab.Core.Router.Post default: return e, errors.New(\"MailRouteMethod must be set to something in the config\") } routerMethod(\"/2fa/\"+twofactorKind+\"/email/verify/end\", middleware(ab.Core.ErrorHandler.Wrap(e.End))) if err := e.Authboss.Core.ViewRenderer.Load(PageVerify2FA); err != nil { return e, err } return e, e.Authboss.Core.MailRenderer.Load(EmailVerifyHTML, EmailVerifyTxt) }"
+def fn_otp_twofactor_EmailVerify_PostStart : String := "func(w http.ResponseWriter, r *http.Request) error { cu, err := e.Authboss.CurrentUser(r) if err != nil { return err } user := cu.(User) ctx := r.Context() token, err := GenerateToken() if err != nil { return err } authboss.PutSession(w, authboss.Session2FAAuthToken, token) if e.Authboss.Config.Modules.MailNoGoroutine { e.SendVerifyEmail(ctx, user.GetEmail(), token) } else { go e.SendVerifyEmail(ctx, user.GetEmail(), token) } ro := authboss.RedirectOptions{ Code: http.StatusTemporaryRedirect, RedirectPath: e.Authboss.Config.Paths.TwoFactorEmailAuthNotOK, Success: e.Localizef(ctx, authboss.TxtEmailVerifyTriggered), } return e.Authboss.Config.Core.Redirector.Redirect(w, r, ro) }"
+def fn_otp_twofactor_EmailVerify_SendVerifyEmail : String := "func(ctx context.Context, to, token string) { mailURL := e.mailURL(token) email := authboss.Email{ To: []string{to}, From: e.Config.Mail.From, FromName: e.Config.Mail.FromName, Subject: e.Config.Mail.SubjectPrefix + e.Localizef(ctx, authboss.TxtEmailVerifySubject), } ro := authboss.EmailResponseOptions{ Data: authboss.NewHTMLData(DataVerifyURL, mailURL), HTMLTemplate: EmailVerifyHTML, TextTemplate: EmailVerifyTxt, } if err := e.Authboss.Email(ctx, email, ro); err != nil { } }"
+def fn_otp_twofactor_EmailVerify_End : String := "func(w http.ResponseWriter, r *http.Request) error { values, err := e.Authboss.Core.BodyReader.Read(PageVerifyEnd2FA, r) if err != nil { return err } tokenValues := MustHaveEmailVerifyTokenValues(values) wantToken := tokenValues.GetToken() givenToken, _ := authboss.GetSession(r, authboss.Session2FAAuthToken) if 1 != subtle.ConstantTimeCompare([]byte(wantToken), []byte(givenToken)) { ro := authboss.RedirectOptions{ Code: http.StatusTemporaryRedirect, Failure: e.Localizef(r.Context(), authboss.TxtInvalid2FAVerificationToken), RedirectPath: e.Authboss.Config.Paths.TwoFactorEmailAuthNotOK, } return e.Authboss.Core.Redirector.Redirect(w, r, ro) } authboss.DelSession(w, authboss.Session2FAAuthToken) authboss.PutSession(w, authboss.Session2FAAuthed, \"true\") ro := authboss.RedirectOptions{ Code: http.StatusTemporaryRedirect, RedirectPath: e.TwofactorSetupURL, } return e.Authboss.Core.Redirector.Redirect(w, r, ro) }"
+def fn_otp_twofactor_EmailVerify_Wrap : String := "func(handler http.Handler) http.Handler { return http.HandlerFunc(func(w http.ResponseWriter, r *http.Request) { if !e.Authboss.Config.Modules.TwoFactorEmailAuthRequired { handler.ServeHTTP(w, r) return } authed, _ := authboss.GetSession(r, authboss.Session2FAAuthed) if authed == \"true\" { handler.ServeHTTP(w, r) return } redirURL := path.Join(e.Authboss.Config.Paths.Mount, \"2fa\", e.TwofactorKind, \"email/verify\") ro := authboss.RedirectOptions{ Code: http.StatusTemporaryRedirect, Failure: e.Localizef(r.Context(), authboss.Txt2FAAuthorizationRequired), RedirectPath: redirURL, } if err := e.Authboss.Core.Redirector.Redirect(w, r, ro); err != nil { return } }) }"
+def fn_otp_twofactor_GenerateToken : String := "func() (string, error) { rawToken := make([]byte, verifyEmailTokenSize) if _, err := io.ReadFull(rand.Reader, rawToken); err != nil { return \"\", err } return base64.URLEncoding.EncodeToString(rawToken), nil }"
+def consts_otp_twofactor : List (String × String) := [
+  ("otp_twofactor.PageRecovery2FA", "\"recovery2fa\""),
+  ("otp_twofactor.PageVerify2FA", "\"twofactor_verify\""),
+  ("otp_twofactor.PageVerifyEnd2FA", "\"twofactor_verify_end\""),
+  ("otp_twofactor.EmailVerifyHTML", "\"twofactor_verify_email_html\""),
+  ("otp_twofactor.EmailVerifyTxt", "\"twofactor_verify_email_txt\""),
+  ("otp_twofactor.FormValueToken", "\"token\""),
+  ("otp_twofactor.DataRecoveryCode", "\"recovery_code\""),
+  ("otp_twofactor.DataRecoveryCodes", "\"recovery_codes\""),
+  ("otp_twofactor.DataNumRecoveryCodes", "\"n_recovery_codes\""),
+  ("otp_twofactor.DataVerifyEmail", "\"email\""),
+  ("otp_twofactor.DataVerifyURL", "\"url\""),
+  ("otp_twofactor.alphabet", "\"abcdefghijkmnopqrstuvwxyz0123456789\""),
+  ("otp_twofactor.recoveryCodeLength", "10"),
+  ("otp_twofactor.verifyEmailTokenSize", "16")
+]
+def stateCalls_otp_twofactor : List (String × String) := [
+  ("otp_twofactor.EmailVerify.PostStart", "PutSession(authboss.Session2FAAuthToken, token)"),
+  ("otp_twofactor.EmailVerify.End", "DelSession(authboss.Session2FAAuthToken)"),
+  ("otp_twofactor.EmailVerify.End", "PutSession(authboss.Session2FAAuthed, \"true\")")
+]
+def logCalls_otp_twofactor : List (String × String) := [
+  ("otp_twofactor.EmailVerify.PostStart", "Infof(\"generated new 2fa e-mail verify token for user: %s\" | user.GetPID())"),
+  ("otp_twofactor.EmailVerify.SendVerifyEmail", "Infof(\"sending add 2fa verification e-mail to: %s\" | to)"),
+  ("otp_twofactor.EmailVerify.SendVerifyEmail", "Errorf(\"failed to send 2fa verification e-mail to %s: %+v\" | to | err)"),
+  ("otp_twofactor.EmailVerify.Wrap", "Errorf(\"failed to redirect client: %+v\" | err)")
+]
+def routes_otp_twofactor : List (String × String) := [
+  ("otp_twofactor.Recovery.Setup", "Get \"/2fa/recovery/regen\" middleware(rc.Authboss.Core.ErrorHandler.Wrap(rc.GetRegen))"),
+  ("otp_twofactor.Recovery.Setup", "Post \"/2fa/recovery/regen\" middleware(rc.Authboss.Core.ErrorHandler.Wrap(rc.PostRegen))"),
+  ("otp_twofactor.SetupEmailVerify", "Get \"/2fa/\" + twofactorKind + \"/email/verify\" middleware(ab.Core.ErrorHandler.Wrap(e.GetStart))"),
+  ("otp_twofactor.SetupEmailVerify", "Post \"/2fa/\" + twofactorKind + \"/email/verify\" middleware(ab.Core.ErrorHandler.Wrap(e.PostStart))"),
+  ("otp_twofactor.SetupEmailVerify", "routerMethod \"/2fa/\" + twofactorKind + \"/email/verify/end\" middleware(ab.Core.ErrorHandler.Wrap(e.End))")
+]
+def fn_defaults_HTTPBodyReader_Read : String := "func(page string, r *http.Request) (authboss.Validator, error) { var values map[string]string if h.ReadJSON { b, err := io.ReadAll(r.Body) r.Body.Close() if err != nil { return nil, errors.Wrap(err, \"failed to read http body\") } if err = json.Unmarshal(b, &values); err != nil { return nil, errors.Wrap(err, \"failed to parse json http body\") } } else { if err := r.ParseForm(); err != nil { return nil, errors.Wrapf(err, \"failed to parse form on page: %s\", page) } values = URLValuesToMap(r.Form) } rules := h.Rulesets[page] confirms := h.Confirms[page] whitelist := h.Whitelist[page] switch page { case \"confirm\": return ConfirmValues{ HTTPFormValidator: HTTPFormValidator{Values: values, Ruleset: rules}, Token: values[FormValueConfirm], }, nil case \"login\": var pid string if h.UseUsername { pid = values[FormValueUsername] } else { pid = values[FormValueEmail] } return UserValues{ HTTPFormValidator: HTTPFormValidator{Values: values, Ruleset: rules, ConfirmFields: confirms}, PID: pid, Password: values[FormValuePassword], }, nil case \"recover_start\": var pid string if h.UseUsername { pid = values[FormValueUsername] } else { pid = values[FormValueEmail] } return RecoverStartValues{ HTTPFormValidator: HTTPFormValidator{Values: values, Ruleset: rules, ConfirmFields: confirms}, PID: pid, }, nil case \"recover_middle\": return RecoverMiddleValues{ HTTPFormValidator: HTTPFormValidator{Values: values, Ruleset: rules, ConfirmFields: confirms}, Token: values[FormValueToken], }, nil case \"recover_end\": return RecoverEndValues{ HTTPFormValidator: HTTPFormValidator{Values: values, Ruleset: rules, ConfirmFields: confirms}, Token: values[FormValueToken], NewPassword: values[FormValuePassword], }, nil case \"twofactor_verify_end\": return ConfirmValues{ HTTPFormValidator: HTTPFormValidator{Values: values, Ruleset: rules, ConfirmFields: confirms}, Token: values[FormValueToken], }, nil case \"totp2fa_confirm\", \"totp2fa_remove\", \"totp2fa_validate\": return TwoFA{ HTTPFormValidator: HTTPFormValidator{Values: values, Ruleset: rules, ConfirmFields: confirms}, Code: values[FormValueCode], RecoveryCode: values[FormValueRecoveryCode], }, nil case \"sms2fa_setup\", \"sms2fa_remove\", \"sms2fa_confirm\", \"sms2fa_validate\": return SMSTwoFA{ HTTPFormValidator: HTTPFormValidator{Values: values, Ruleset: rules, ConfirmFields: confirms}, Code: values[FormValueCode], PhoneNumber: values[FormValuePhoneNumber], RecoveryCode: values[FormValueRecoveryCode], }, nil case \"register\": arbitrary := make(map[string]string) for k, v := range values { for _, w := range whitelist { if k == w { arbitrary[k] = v break } } } var pid string if h.UseUsername { pid = values[FormValueUsername] } else { pid = values[FormValueEmail] } return UserValues{ HTTPFormValidator: HTTPFormValidator{Values: values, Ruleset: rules, ConfirmFields: confirms}, PID: pid, Password: values[FormValuePassword], Arbitrary: arbitrary, }, nil default: return nil, errors.Errorf(\"failed to parse unknown page's form: %s\", page) } }"
+def fn_defaults_NewHTTPBodyReader : String := "func(readJSON, useUsernameNotEmail bool) *HTTPBodyReader { var pid string var pidRules Rules if useUsernameNotEmail { pid = \"username\" pidRules = Rules{ FieldName: pid, Required: true, MatchError: \"Usernames must only start with letters, and contain letters and numbers\", MustMatch: regexp.MustCompile(`(?i)[a-z][a-z0-9]?`), } } else { pid = \"email\" pidRules = Rules{ FieldName: pid, Required: true, MatchError: \"Must be a valid e-mail address\", MustMatch: regexp.MustCompile(`.*@.*\\.[a-z]+`), } } passwordRule := Rules{ FieldName: \"password\", MinLength: 8, MinNumeric: 1, MinSymbols: 1, MinUpper: 1, MinLower: 1, } return &HTTPBodyReader{ UseUsername: useUsernameNotEmail, ReadJSON: readJSON, Rulesets: map[string][]Rules{ \"login\": {pidRules}, \"register\": {pidRules, passwordRule}, \"confirm\": {Rules{FieldName: FormValueConfirm, Required: true}}, \"recover_start\": {pidRules}, \"recover_end\": {passwordRule}, \"twofactor_verify_end\": {Rules{FieldName: FormValueToken, Required: true}}, }, Confirms: map[string][]string{ \"register\": {FormValuePassword, authboss.ConfirmPrefix + FormValuePassword}, \"recover_end\": {FormValuePassword, authboss.ConfirmPrefix + FormValuePassword}, }, Whitelist: map[string][]string{ \"register\": {FormValueEmail}, }, } }"
+def fn_defaults_HTTPFormValidator_Validate : String := "func() []error { var errList authboss.ErrorList for _, rule := range h.Ruleset { field := rule.FieldName val := h.Values[field] if errs := rule.Errors(val); len(errs) > 0 { errList = append(errList, errs...) } } if l := len(h.ConfirmFields); l != 0 && l%2 != 0 { panic(\"HTTPFormValidator given an odd number of confirm fields\") } for i := 0; i < len(h.ConfirmFields)-1; i += 2 { main := h.Values[h.ConfirmFields[i]] if len(main) == 0 { continue } confirm := h.Values[h.ConfirmFields[i+1]] if len(confirm) == 0 || main != confirm { errList = append(errList, FieldError{h.ConfirmFields[i+1], fmt.Errorf(\"Does not match %s\", h.ConfirmFields[i])}) } } return errList }"
+def fn_defaults_URLValuesToMap : String := "func(form url.Values) map[string]string { values := make(map[string]string) for k, v := range form { if len(v) != 0 { values[k] = v[0] } } return values }"
+def fn_defaults_UserValues_GetShouldRemember : String := "func() bool { rm, ok := u.Values[authboss.CookieRemember] return ok && rm == \"true\" }"
+def fn_defaults_Rules_Errors : String := "func(toValidate string) authboss.ErrorList { errs := make(authboss.ErrorList, 0) ln := len(toValidate) if r.Required && (ln == 0 || blankRegex.MatchString(toValidate)) { return append(errs, FieldError{r.FieldName, errors.New(\"Cannot be blank\")}) } if r.MustMatch != nil { if !r.MustMatch.MatchString(toValidate) { errs = append(errs, FieldError{r.FieldName, errors.New(r.MatchError)}) } } if (r.MinLength > 0 && ln < r.MinLength) || (r.MaxLength > 0 && ln > r.MaxLength) { errs = append(errs, FieldError{r.FieldName, errors.New(r.lengthErr())}) } upper, lower, numeric, symbols, whitespace := tallyCharacters(toValidate) if upper+lower < r.MinLetters { errs = append(errs, FieldError{r.FieldName, errors.New(r.charErr())}) } if upper < r.MinUpper { errs = append(errs, FieldError{r.FieldName, errors.New(r.upperErr())}) } if lower < r.MinLower { errs = append(errs, FieldError{r.FieldName, errors.New(r.lowerErr())}) } if numeric < r.MinNumeric { errs = append(errs, FieldError{r.FieldName, errors.New(r.numericErr())}) } if symbols < r.MinSymbols { errs = append(errs, FieldError{r.FieldName, errors.New(r.symbolErr())}) } if !r.AllowWhitespace && whitespace > 0 { errs = append(errs, FieldError{r.FieldName, errors.New(\"No whitespace permitted\")}) } if len(errs) == 0 { return nil } return errs }"
+def fn_defaults_Rules_IsValid : String := "func(toValidate string) bool { return nil == r.Errors(toValidate) }"
+def fn_defaults_tallyCharacters : String := "func(s string) (upper, lower, numeric, symbols, whitespace int) { for _, c := range s { switch { case unicode.IsLetter(c): if unicode.IsUpper(c) { upper++ } else { lower++ } case unicode.IsDigit(c): numeric++ case unicode.IsSpace(c): whitespace++ default: symbols++ } } return upper, lower, numeric, symbols, whitespace }"
+def consts_defaults : List (String × String) := [
+  ("defaults.FormValueEmail", "\"email\""),
+  ("defaults.FormValuePassword", "\"password\""),
+  ("defaults.FormValueUsername", "\"username\""),
+  ("defaults.FormValueConfirm", "\"cnf\""),
+  ("defaults.FormValueToken", "\"token\""),
+  ("defaults.FormValueCode", "\"code\""),
+  ("defaults.FormValueRecoveryCode", "\"recovery_code\""),
+  ("defaults.FormValuePhoneNumber", "\"phone_number\"")
+]
+def pkgVars_defaults : List (String × String) := [
+  ("defaults.jsonDefaultFailures", "[]string{authboss.DataErr, authboss.DataValidation}"),
+  ("defaults.blankRegex", "regexp.MustCompile(`^\\s*$`)"),
+  ("defaults.emailTmpl", "template.Must(template.New(\"email\").Funcs(template.FuncMap{ \"join\": strings.Join, \"namedAddress\": namedAddress, \"namedAddresses\": namedAddresses, }).Parse(`To: {{namedAddresses .Mail.ToNames .Mail.To}}{{if .Mail.Cc}} Cc: {{namedAddresses .Mail.CcNames .Mail.Cc}}{{end}}{{if .Mail.Bcc}} Bcc: {{namedAddresses .Mail.BccNames .Mail.Bcc}}{{end}} From: {{namedAddress .Mail.FromName .Mail.From}} Subject: {{.Mail.Subject}}{{if .Mail.ReplyTo}} Reply-To: {{namedAddress .Mail.ReplyToName .Mail.ReplyTo}}{{end}} MIME-Version: 1.0 Content-Type: multipart/alternative; boundary=\"==============={{.Boundary}}==\" Content-Transfer-Encoding: 7bit {{if .Mail.TextBody -}} --==============={{.Boundary}}== Content-Type: text/plain; charset=UTF-8 Content-Transfer-Encoding: 7bit {{.Mail.TextBody}} {{end -}} {{if .Mail.HTMLBody -}} --==============={{.Boundary}}== Content-Type: text/html; charset=UTF-8 Content-Transfer-Encoding: 7bit {{.Mail.HTMLBody}} {{end -}} --==============={{.Boundary}}==-- `))")
+]
 
 end Expected
